@@ -22,7 +22,7 @@ Section Refine.
 
   Notation ld := (prog_loader prog).
   Notation cp := (prog_compiler prog cm).
-  Notation stepP := (step nat (list top) ld cp B fm true true).
+  Notation stepP := (step nat (list top) ld cp B fm true true true).
   Notation InvP := (Inv B).
 
   Definition pth (st : state) (id : nat) : path := m_path (getmod st id).
@@ -70,16 +70,6 @@ Section Refine.
   Definition FL (st : state) : Prop :=
     forall f, In f (frames st) -> alookup (reg st) (pth st (f_mod f)) = Some (f_mod f) /\ live st (f_mod f).
 
-  Record Good (x : xst) (sx : sx) : Prop := mkGood {
-    g_inv : InvP (ms x);
-    g_rel : Rel (ms x) (ss sx);
-    g_fl : FL (ms x);
-    g_out : xout x = sout sx;
-    g_hand : handlers (ms x) = [];
-    g_dead : dead (ms x) = None
-  }.
-
-  (* later states: objects keep their paths, finished modules stay finished *)
   Record ext (st st' : state) : Prop := mkExt {
     e_len : List.length (heap st) <= List.length (heap st');
     e_path : forall id, id < List.length (heap st) -> pth st' id = pth st id;
@@ -168,22 +158,6 @@ Section Refine.
   Qed.
 
   (* the Spec knows the module of the running code, as the object `active` *)
-  Lemma cur_entry x sx :
-    Good x sx ->
-    let a := active (ms x) in
-    alookup (reg (ms x)) (pth (ms x) a) = Some a /\ live (ms x) a
-    /\ exists sm, alookup (s_mods (ss sx)) (pth (ms x) a) = Some sm /\ aeq (ms x) a (s_globals sm).
-  Proof.
-    intros G a. destruct (active_frame _ (g_inv _ _ G) (g_dead _ _ G)) as (f & r & Ef & Ha).
-    destruct (g_fl _ _ G f) as [Hr Hl]; [rewrite Ef; left; auto|].
-    unfold a. rewrite Ha. split; auto. split; auto.
-    destruct (alookup (s_mods (ss sx)) (pth (ms x) (f_mod f))) as [sm|] eqn:Es.
-    - exists sm. split; auto. destruct (r_some _ _ (g_rel _ _ G) _ _ Es) as (id & H1 & _ & _ & H4).
-      rewrite Hr in H1. inversion H1; subst. exact H4.
-    - exfalso. destruct (r_none _ _ (g_rel _ _ G) _ Es) as [H|(id & H1 & H2 & H3)]; [congruence|].
-      rewrite Hr in H1. inversion H1; subst. eapply live_not_leftover; eauto.
-  Qed.
-
   Lemma sglobals_entry ss p sm : alookup (s_mods ss) p = Some sm -> sglobals ss p = s_globals sm.
   Proof. intros H. unfold sglobals. rewrite H. reflexivity. Qed.
 
@@ -313,7 +287,7 @@ Section Refine.
   Proof. intros H1 H2. unfold live, getmod. rewrite H1, H2. tauto. Qed.
 
   (* pushing the frame of a called function *)
-  Definition pushed (st : state) (m : nat) : state := load_frame (set_frames st (mkframe m false :: frames st)).
+  Definition pushed (st : state) (m : nat) : state := load_frame (set_frames st (mkframe m false false :: frames st)).
 
   Lemma is_loading_pushed st m j : is_loading (pushed st m) j = is_loading st j.
   Proof. reflexivity. Qed.
@@ -388,16 +362,16 @@ Section Refine.
   (* ---- entering the body of a freshly loaded module ---- *)
   Definition entered (st0 : state) (p : path) : state :=
     let id := List.length (heap st0) in
-    init_builtins B id (log_ran id (load_frame (set_frames (created (log_load p st0) p) (mkframe id true :: frames st0)))).
+    init_builtins B id (log_ran id (load_frame (set_frames (created (log_load p st0) p) (mkframe id true false :: frames st0)))).
 
   Lemma load_and_run_enter st0 p s b :
-    alookup (reg st0) p = None -> ld p = LoadOk s -> cp p s = CompOk b -> List.length (frames st0) <> fm ->
+    alookup (reg st0) p = None -> ld p = LoadOk s -> cp p s = CompOk b -> fiber_depth (frames st0) <> fm ->
     load_and_run nat (list top) ld cp B fm true st0 p = (entered st0 p, OEntered (List.length (heap st0)) b).
   Proof.
     intros Hr Hl Hc Hne. unfold load_and_run. rewrite Hl, Hc.
     rewrite get_or_create_none by (simpl; exact Hr).
     unfold call_closure. apply Nat.eqb_neq in Hne.
-    change (List.length (frames (created (log_load p st0) p))) with (List.length (frames st0)). rewrite Hne.
+    change (fiber_depth (frames (created (log_load p st0) p))) with (fiber_depth (frames st0)). rewrite Hne.
     cbn [fst snd negb orb]. unfold entered. simpl.
     rewrite Nat.eqb_refl. reflexivity.
   Qed.
@@ -627,72 +601,18 @@ Section Refine.
 
   (* ============================================================================================ *)
   (* the simulation *)
-  Notation RT := (run_task prog cm B fm true true).
+  Notation RT := (run_task prog cm B fm true true true).
   Notation ST := (srun_task prog (B ++ C) fm).
-  Notation GG := (get_global prog cm B fm true true).
-  Notation DS := (do_step prog cm B fm true true).
-
-  Definition Sim (x0 : xst) (r : res) (q : sresult) : Prop :=
-    match r, q with
-    | RNormal env' x', QNormal senv' sx' =>
-      Good x' sx' /\ frames (ms x') = frames (ms x0) /\ ext (ms x0) (ms x') /\ envrel (ms x') env' senv'
-    | RDead e x', QRaised se sx' =>
-      xout x' = sout sx' /\ s_loads (ss sx') = loads (ms x') /\ excrel (ms x') e se
-    | RFuel, QFuel => True
-    | RIll w, QIll w' => w = w'
-    | _, _ => False
-    end.
-
-  Lemma Sim_trans x0 x1 r q :
-    frames (ms x1) = frames (ms x0) -> ext (ms x0) (ms x1) -> Sim x1 r q -> Sim x0 r q.
-  Proof.
-    intros Hf He H. destruct r, q; simpl in *; auto.
-    destruct H as (G & F & E & V). split; auto. split; [congruence|]. split; auto. eapply ext_trans; eauto.
-  Qed.
+  Notation GG := (get_global prog cm B fm true true true).
+  Notation DS := (do_step prog cm B fm true true true).
 
   Definition curp (x : xst) : path := pth (ms x) (active (ms x)).
 
   Lemma display_tv st v : display_s (tv st v) = display_m st v.
   Proof. destruct v; reflexivity. Qed.
 
-  Lemma good_emit x sx l : Good x sx -> Good (emit x l) (semit sx l).
-  Proof. intros [a b c d e f]. constructor; simpl; auto. now rewrite d. Qed.
-
-  Lemma good_ms x x' sx : ms x' = ms x -> xout x' = xout x -> Good x sx -> Good x' sx.
-  Proof. intros H1 H2 [a b c d e f]. constructor; rewrite ?H1, ?H2; auto. Qed.
-
-  Lemma step_ok_inv st e : InvP st -> InvP (fst (stepP st e)).
-  Proof. apply step_inv. Qed.
-
-  (* a dead run: only what was printed and loaded counts *)
   Lemma raise_dead st ex : handlers st = [] -> raise (list top) st ex = (fst (raise (list top) st ex), ODead ex).
   Proof. intros H. unfold raise. rewrite H. reflexivity. Qed.
-
-  Lemma sim_dead x0 x sx st' ex se :
-    xout x = sout sx -> s_loads (ss sx) = loads st' -> excrel st' ex se ->
-    Sim x0 (RDead ex (with_ms x (fst (raise (list top) st' ex)))) (QRaised se sx).
-  Proof.
-    intros H1 H2 H3. simpl. split; auto. rewrite raise_loads. split; auto.
-    destruct ex, se; simpl in *; auto. destruct H3 as (H3 & H4 & H5). split; auto.
-    destruct v; simpl in *; auto; try (exfalso; eapply H4; eauto; fail); exfalso; eapply H5; eauto.
-  Qed.
-
-  (* ---- global read ---- *)
-  Lemma sim_get x0 x sx nm k sk :
-    Good x sx ->
-    (forall v, alookup (attrs_of (ms x) (active (ms x))) nm = Some v -> vok (ms x) (active (ms x)) v ->
-               Sim x0 (k x v) (sk (tv (ms x) v))) ->
-    Sim x0 (GG x nm k) (sget (curp x) sx nm sk).
-  Proof.
-    intros G Hk. destruct (cur_entry x sx G) as (Hr & Hl & sm & Hs & [A1 A2]).
-    unfold get_global, do_step, mstep, step. rewrite (g_dead _ _ G).
-    unfold sget, curp. rewrite (sglobals_entry _ _ _ Hs), A1.
-    destruct (alookup (attrs_of (ms x) (active (ms x))) nm) as [v|] eqn:E; simpl.
-    - rewrite with_ms_id. apply Hk; auto. eapply A2; eauto.
-    - rewrite (raise_dead _ _ (g_hand _ _ G)).
-      exact (sim_dead x0 x sx (ms x) (XErr (mkerr KName [undefined_variable nm])) (SXErr (mkerr KName [undefined_variable nm]))
-                      (g_out _ _ G) (r_loads _ _ (g_rel _ _ G)) (conj eq_refl eq_refl)).
-  Qed.
 
   Definition modok (st : state) (v : value) : Prop := forall id, v = VMod id -> settled st (pth st id) id.
 
@@ -702,42 +622,6 @@ Section Refine.
   Lemma vlocal_modok st v : vlocal st v -> modok st v.
   Proof. intros H id ->. exact H. Qed.
 
-  Lemma sim_resolve x0 x sx env senv nm k sk :
-    Good x sx -> envrel (ms x) env senv ->
-    (forall v, modok (ms x) v -> (forall m key, v = VFn m key -> m = active (ms x)) -> Sim x0 (k x v) (sk (tv (ms x) v))) ->
-    Sim x0 (resolve prog cm B fm true true env x nm k) (sresolve (curp x) senv sx nm sk).
-  Proof.
-    intros G He Hk. unfold resolve, sresolve.
-    pose proof (lookup_local_rel (ms x) env senv nm He) as H.
-    destruct (lookup_local env nm) as [v|], (slookup_local senv nm) as [sv|]; try tauto.
-    - destruct H as [-> Hv]. apply Hk; [apply vlocal_modok; auto|]. intros m key ->. simpl in Hv. tauto.
-    - apply sim_get; auto. intros v Hv Hok. apply Hk; [eapply vok_modok; eauto|]. intros m key ->. exact Hok.
-  Qed.
-
-  (* ---- attribute / global write ---- *)
-  Lemma good_upd x sx p id sm nm v :
-    Good x sx -> alookup (reg (ms x)) p = Some id -> alookup (s_mods (ss sx)) p = Some sm -> vok (ms x) id v ->
-    Good (with_ms x (upd_attrs (ms x) id (fun a => ainsert a nm v))) (sset p sx nm (tv (ms x) v)).
-  Proof.
-    intros G Hr Hs Hv. destruct G as [a b c d e f]. constructor; simpl; auto.
-    - apply (upd_attrs_inv nat (list top) ld cp); auto. intros l k. apply akeys_ainsert_mono.
-    - eapply rel_upd; eauto.
-    - apply fl_upd; auto.
-  Qed.
-
-  Lemma sim_normal_upd x0 x sx env senv p id sm nm v :
-    Good x sx -> envrel (ms x) env senv ->
-    alookup (reg (ms x)) p = Some id -> alookup (s_mods (ss sx)) p = Some sm -> vok (ms x) id v ->
-    frames (ms x) = frames (ms x0) -> ext (ms x0) (ms x) ->
-    Sim x0 (RNormal env (with_ms x (upd_attrs (ms x) id (fun a => ainsert a nm v))))
-           (QNormal senv (sset p sx nm (tv (ms x) v))).
-  Proof.
-    intros G He Hr Hs Hv Hf Hx. simpl. split; [eapply good_upd; eauto|]. split; [exact Hf|].
-    split; [eapply ext_trans; [exact Hx|apply ext_upd]|].
-    apply (envrel_ext (ms x)); [apply (g_inv _ _ G)|apply ext_upd|exact He].
-  Qed.
-
-  (* a finished module, seen from the Spec *)
   Lemma mod_entry st ss p id :
     Rel st ss -> settled st p id -> exists sm, alookup (s_mods ss) p = Some sm /\ aeq st id (s_globals sm).
   Proof.
@@ -769,6 +653,7 @@ Section Refine.
     | TkExec l _ => forallb tf_stmt l
     | TkExec1 s _ => tf_stmt s
     | TkCall _ _ => true
+    | TkFiber _ _ _ => true
     | TkTops ts _ => forallb tf_top ts
     end.
 
@@ -825,76 +710,10 @@ Section Refine.
     | TkCall env w, SkCall senv sw =>
       envrel st env senv /\ sw = tv st w
       /\ (forall m key, w = VFn m key -> alookup (reg st) (pth st m) = Some m /\ live st m)
+    | TkFiber k f env, SkFiber k' f' senv => k = k' /\ f = f' /\ envrel st env senv
     | TkTops ts src, SkTops ts' src' => ts = ts' /\ src = src'
     | _, _ => False
     end.
-
-  Lemma curp_same x sx x' sx' :
-    Good x sx -> Good x' sx' -> frames (ms x') = frames (ms x) -> ext (ms x) (ms x') -> curp x' = curp x.
-  Proof.
-    intros G G' Hf He. unfold curp.
-    destruct (active_frame _ (g_inv _ _ G) (g_dead _ _ G)) as (f & r & Ef & Ha).
-    destruct (active_frame _ (g_inv _ _ G') (g_dead _ _ G')) as (f' & r' & Ef' & Ha').
-    rewrite Hf, Ef in Ef'. inversion Ef'; subst f' r'. rewrite Ha', Ha.
-    apply (e_path _ _ He). apply (i_fr_ok _ _ (g_inv _ _ G)). rewrite Ef. left; auto.
-  Qed.
-
-  Lemma sim_refl_normal x sx env senv : Good x sx -> envrel (ms x) env senv -> Sim x (RNormal env x) (QNormal senv sx).
-  Proof. intros G E. simpl. split; auto. split; auto. split; [apply ext_refl|exact E]. Qed.
-
-  (* continuing after a normally finished sub-task *)
-  Lemma sim_seq x r q (kr : lenv -> xst -> res) (kq : senv -> sx -> sresult) :
-    Sim x r q ->
-    (forall env' x' senv' sx', Good x' sx' -> frames (ms x') = frames (ms x) -> ext (ms x) (ms x') ->
-                               envrel (ms x') env' senv' -> Sim x (kr env' x') (kq senv' sx')) ->
-    Sim x (match r with
-           | RNormal e' x' => kr e' x'
-           | RUnwound h e x' => RUnwound h e x'
-           | RDead e x' => RDead e x'
-           | RFuel => RFuel
-           | RIll w => RIll w
-           end)
-          (match q with
-           | QNormal e' x' => kq e' x'
-           | QRaised e x' => QRaised e x'
-           | QFuel => QFuel
-           | QIll w => QIll w
-           end).
-  Proof.
-    intros H Hk. destruct r, q; simpl in H; try contradiction; auto.
-    destruct H as (G & F & E & V). apply Hk; auto.
-  Qed.
-
-  (* the same when the scrutinee is let-bound (the default branches return the scrutinee itself) *)
-  Lemma sim_seq_var x r q (kr : lenv -> xst -> res) (kq : senv -> sx -> sresult) :
-    Sim x r q ->
-    (forall env' x' senv' sx', Good x' sx' -> frames (ms x') = frames (ms x) -> ext (ms x) (ms x') ->
-                               envrel (ms x') env' senv' -> Sim x (kr env' x') (kq senv' sx')) ->
-    Sim x (match r with RNormal e' x' => kr e' x' | _ => r end)
-          (match q with QNormal e' x' => kq e' x' | _ => q end).
-  Proof.
-    intros H Hk. destruct r, q; simpl in H; try contradiction; auto.
-    destruct H as (G & F & E & V). apply Hk; auto.
-  Qed.
-
-  Definition IHsim (fuel : nat) : Prop :=
-    forall tk stk x sx, Good x sx -> task_rel (ms x) tk stk -> tf_task tk = true ->
-                        Sim x (RT fuel tk x) (ST fuel (curp x) (List.length (frames (ms x))) stk sx).
-
-  (* binding the alias of a completed import *)
-  Lemma sim_bind_alias x0 x sx env senv nm id :
-    Good x sx -> envrel (ms x) env senv -> settled (ms x) (pth (ms x) id) id ->
-    frames (ms x) = frames (ms x0) -> ext (ms x0) (ms x) ->
-    Sim x0 (bind_alias prog cm B fm true true env x nm (VMod id)) (sbind (curp x) senv sx nm (SMod (pth (ms x) id))).
-  Proof.
-    intros G He Hs Hf Hx. unfold bind_alias, sbind.
-    destruct He as [|sc ssc env senv Hsc He].
-    - destruct (cur_entry x sx G) as (Hr & Hl & sm & Hsm & _).
-      unfold do_step, mstep, step. rewrite (g_dead _ _ G). simpl.
-      exact (sim_normal_upd x0 x sx [] [] (curp x) (active (ms x)) sm nm (VMod id) G (Forall2_nil _) Hr Hsm Hs Hf Hx).
-    - simpl. split; [exact G|]. split; [exact Hf|]. split; [exact Hx|].
-      constructor; [constructor; [simpl; auto|exact Hsc]|exact He].
-  Qed.
 
   Lemma sx_eta (q : sx) : mksx (ss q) (sout q) (sfl q) = q.
   Proof. destruct q; reflexivity. Qed.
@@ -902,351 +721,9 @@ Section Refine.
   Lemma spec_finish_loads st p b : s_loads (spec_finish st p b) = s_loads st.
   Proof. unfold spec_finish. destruct (alookup (s_mods st) p); auto. destruct b; reflexivity. Qed.
 
-  Lemma good_step_same x sx e s' :
-    Good x sx -> s' = fst (stepP (ms x) e) ->
-    heap s' = heap (ms x) -> reg s' = reg (ms x) -> loads s' = loads (ms x) -> frames s' = frames (ms x) ->
-    handlers s' = handlers (ms x) -> dead s' = dead (ms x) ->
-    Good (with_ms x s') sx.
-  Proof.
-    intros G -> H1 H2 H3 H4 H5 H6. destruct G as [a b c d e0 f]. constructor; simpl; auto; try congruence.
-    - apply step_inv; auto.
-    - apply (rel_same (ms x)); auto. intros j. unfold is_loading. now rewrite H4.
-    - intros g Hg. rewrite H4 in Hg. destruct (c g Hg) as [A1 A2]. rewrite (pth_same (ms x)) by exact H1. rewrite H2.
-      split; auto. apply (live_same (ms x)); auto. unfold is_loading. now rewrite H4.
-  Qed.
-
-  Lemma sim_import fuel x sx env senv p a :
-    tf_prog = true -> IHsim fuel -> Good x sx -> envrel (ms x) env senv ->
-    Sim x (RT (S fuel) (TkExec1 (SImport p a) env) x)
-          (ST (S fuel) (curp x) (List.length (frames (ms x))) (SkExec1 (SImport p a) senv) sx).
-  Proof.
-    intros Htf IH G He. simpl.
-    set (P := mod_path (N.to_nat p)). set (nm := import_alias p a).
-    pose proof (g_inv _ _ G) as I. pose proof (g_rel _ _ G) as R.
-    (* what the loader path does, from a prepared state *)
-    assert (Hload : forall st0, prep (ms x) st0 P -> alookup (s_mods (ss sx)) P = None ->
-              stepP (ms x) (EStartImport P) = load_and_run nat (list top) ld cp B fm true st0 P ->
-              Sim x
-                (bind_s (DS x (EStartImport P))
-                   (fun x1 o => match o with
-                      | OModule id => bind_alias prog cm B fm true true env x1 nm (VMod id)
-                      | OEntered id body =>
-                        match RT fuel (TkTops body (src_of_mod x1 id)) x1 with
-                        | RNormal _ x2 => bind_s (DS x2 EReturn) (fun x3 _ => bind_alias prog cm B fm true true env x3 nm (VMod id))
-                        | r => r
-                        end
-                      | _ => RIll "import"
-                      end))
-                (let '(st1, d) := s_import prog (ss sx) P in
-                 let x1 := mksx st1 (sout sx) (sfl sx) in
-                 match d with
-                 | DSame => sbind (curp x) senv x1 nm (SMod P)
-                 | DRaise e => QRaised (SXErr e) x1
-                 | DRun body =>
-                   if Nat.eqb (List.length (frames (ms x))) fm then QRaised (SXErr (mkerr KIndex [stack_overflow_msg])) x1
-                   else
-                     let x1' := mksx (s_begin (B ++ C) (ss x1) P) (sout x1) (sfl x1) in
-                     match ST fuel P (S (List.length (frames (ms x)))) (SkTops body (N.to_nat p)) x1' with
-                     | QNormal _ x2 => sbind (curp x) senv (mksx (spec_finish (ss x2) P true) (sout x2) (sfl x2)) nm (SMod P)
-                     | QRaised e x2 => QRaised e (mksx (spec_finish (ss x2) P false) (sout x2) (sfl x2))
-                     | r => r
-                     end
-                 end)).
-    { intros st0 Pp Hsn Hstep. destruct Pp as [Ph Pf Pl Phd Pds Pn Po Pd].
-      assert (Pp : prep (ms x) st0 P) by (constructor; auto).
-      unfold s_import, spec_import. rewrite Hsn.
-      unfold do_step, mstep. rewrite Hstep. unfold load_and_run.
-      assert (Hh0 : handlers (log_load P st0) = []) by (simpl; rewrite Phd; apply (g_hand _ _ G)).
-      assert (Hl0 : P :: s_loads (ss sx) = loads (log_load P st0)) by (simpl; rewrite Pl; f_equal; apply (r_loads _ _ R)).
-      set (sxl := mksx (mksstate (s_mods (ss sx)) (P :: s_loads (ss sx)) (s_ran (ss sx))) (sout sx) (sfl sx)).
-      destruct (ld P) as [s|e] eqn:El.
-      2:{ rewrite (raise_dead _ _ Hh0). simpl.
-          exact (sim_dead x x sxl (log_load P st0) (XErr e) (SXErr e) (g_out _ _ G) Hl0 (conj eq_refl eq_refl)). }
-      pose proof (comp_rel P s) as Hcr.
-      destruct (cp P s) as [b|msgs] eqn:Ec; destruct (prog_compiler prog [] P s) as [b'|msgs'] eqn:Ec'; try contradiction.
-      2:{ rewrite (raise_dead _ _ Hh0). simpl.
-          exact (sim_dead x x sxl (log_load P st0) (XErr (mkerr KImport (comp_head :: map (append comp_indent) msgs))) (SXErr (mkerr KImport [comp_head])) (g_out _ _ G) Hl0 (conj eq_refl eq_refl)). }
-      subst b'.
-      rewrite get_or_create_none by (simpl; exact Pn).
-      unfold call_closure.
-      change (List.length (frames (created (log_load P st0) P))) with (List.length (frames st0)). rewrite Pf.
-      destruct (Nat.eqb (List.length (frames (ms x))) fm) eqn:Efm.
-      { assert (Hh1 : handlers (created (log_load P st0) P) = []) by exact Hh0.
-        rewrite (raise_dead _ _ Hh1). simpl.
-        exact (sim_dead x x sxl (created (log_load P st0) P) (XErr (mkerr KIndex [stack_overflow_msg])) (SXErr (mkerr KIndex [stack_overflow_msg])) (g_out _ _ G) Hl0 (conj eq_refl eq_refl)). }
-      (* the body is entered *)
-      set (id := List.length (heap (log_load P st0))).
-      cbn [fst snd negb orb].
-      change (active (log_ran id (load_frame (set_frames (created (log_load P st0) P) (mkframe id true :: frames (created (log_load P st0) P)))))) with id.
-      rewrite Nat.eqb_refl.
-      change (init_builtins B id (log_ran id (load_frame (set_frames (created (log_load P st0) P) (mkframe id true :: frames (created (log_load P st0) P))))))
-        with (entered st0 P).
-      cbn [bind_s].
-      cbn [ss sout sfl].
-      set (x1 := with_ms x (entered st0 P)).
-      set (sx1 := mksx (s_begin (B ++ C) (mksstate (s_mods (ss sx)) (P :: s_loads (ss sx)) (s_ran (ss sx))) P) (sout sx) (sfl sx)).
-      destruct (rel_enter (ms x) st0 (ss sx) P I R (g_fl _ _ G) Pp Hsn) as (R1 & F1 & E1).
-      assert (Hent : stepP (ms x) (EStartImport P) = (entered st0 P, OEntered (List.length (heap st0)) b)).
-      { rewrite Hstep. apply (load_and_run_enter st0 P s b); auto. rewrite Pf. apply Nat.eqb_neq; exact Efm. }
-      assert (G1 : Good x1 sx1).
-      { constructor.
-        - change (InvP (entered st0 P)).
-          replace (entered st0 P) with (fst (stepP (ms x) (EStartImport P))) by (rewrite Hent; reflexivity). apply step_inv; exact I.
-        - exact R1.
-        - exact F1.
-        - exact (g_out _ _ G).
-        - change (handlers st0 = []). rewrite Phd. apply (g_hand _ _ G).
-        - change (dead st0 = None). rewrite Pds. apply (g_dead _ _ G). }
-      assert (Hcur1 : curp x1 = P).
-      { unfold curp, x1. simpl. unfold pth. fold id. change id with (List.length (heap st0)).
-        rewrite getmod_entered_new. reflexivity. }
-      assert (Hsrc : src_of_mod x1 (List.length (heap st0)) = N.to_nat p).
-      { unfold src_of_mod, x1. simpl. rewrite getmod_entered_new. simpl.
-        pose proof (loader_index P s El) as Hpi. rewrite Hpi.
-        apply (path_index_mod_path (N.to_nat p) s). exact Hpi. }
-      change id with (List.length (heap st0)). rewrite Hsrc.
-      pose proof (IH (TkTops b (N.to_nat p)) (SkTops b (N.to_nat p)) x1 sx1 G1 (conj eq_refl eq_refl) (compiled_tf P s b Htf Ec)) as Hb.
-      rewrite Hcur1 in Hb.
-      assert (Hfr1 : frames (ms x1) = mkframe (List.length (heap st0)) true :: frames (ms x)) by (simpl; rewrite Pf; reflexivity).
-      rewrite Hfr1 in Hb. simpl List.length in Hb.
-      destruct (RT fuel (TkTops b (N.to_nat p)) x1) as [env2 x2|? ? ?|e2 x2| |w2];
-        destruct (ST fuel P (S (List.length (frames (ms x)))) (SkTops b (N.to_nat p)) sx1) as [senv2 sx2|se2 sx2| |w2']; simpl in Hb; try contradiction; auto.
-      2:{ destruct Hb as (Ho & Hl & Hx). simpl. rewrite spec_finish_loads. auto. }
-      destruct Hb as (G2 & F2 & E2 & _).
-      (* the body returned: FinishImport *)
-      destruct (active_frame _ I (g_dead _ _ G)) as (f & r & Ef & Ha).
-      assert (Hfr2 : frames (ms x2) = mkframe (List.length (heap st0)) true :: f :: r) by (rewrite F2, Pf, Ef; reflexivity).
-      unfold do_step, mstep. unfold step. rewrite (g_dead _ _ G2), Hfr2. cbn [f_body f_mod fst snd bind_s].
-      change (log_yield (m_path (getmod (ms x2) (List.length (heap st0)))) (List.length (heap st0))
-                (set_imported (load_frame (set_frames (ms x2) (f :: r))) (List.length (heap st0))))
-        with (finished (ms x2) (f :: r) (List.length (heap st0))).
-      set (idn := List.length (heap st0)) in *.
-      assert (Hp2 : pth (ms x2) idn = P).
-      { rewrite (e_path _ _ E2). - unfold x1. simpl. unfold pth. unfold idn. rewrite getmod_entered_new. reflexivity.
-        - unfold x1, entered. simpl. rewrite upd_nth_length, app_length. simpl. unfold idn. lia. }
-      destruct (cur_entry x2 sx2 G2) as (_ & _ & sm2 & Hsm2 & _).
-      assert (Hact2 : active (ms x2) = idn).
-      { destruct (active_frame _ (g_inv _ _ G2) (g_dead _ _ G2)) as (f2 & r2 & Ef2 & Ha2).
-        rewrite Hfr2 in Ef2. inversion Ef2; subst. exact Ha2. }
-      rewrite Hact2, Hp2 in Hsm2.
-      destruct (rel_finish (ms x2) (ss sx2) (mkframe idn true) (f :: r) P sm2 (g_inv _ _ G2) (g_rel _ _ G2) (g_fl _ _ G2) Hfr2 eq_refl Hp2 Hsm2)
-        as (R3 & F3 & E3 & S3).
-      cbn [f_mod] in R3, F3, E3, S3.
-      set (x3 := with_ms x2 (finished (ms x2) (f :: r) idn)).
-      set (sx3 := mksx (spec_finish (ss sx2) P true) (sout sx2) (sfl sx2)).
-      assert (Hst3 : finished (ms x2) (f :: r) idn = fst (stepP (ms x2) EReturn)).
-      { unfold step. rewrite (g_dead _ _ G2), Hfr2. reflexivity. }
-      assert (G3 : Good x3 sx3).
-      { constructor; simpl; auto.
-        - rewrite Hst3. apply step_inv. apply (g_inv _ _ G2).
-        - apply (g_out _ _ G2).
-        - apply (g_hand _ _ G2).
-        - apply (g_dead _ _ G2). }
-      assert (Hf3 : frames (ms x3) = frames (ms x)) by (simpl; rewrite Ef; reflexivity).
-      assert (E03 : ext (ms x) (ms x3)).
-      { eapply ext_trans; [exact E1|]. eapply ext_trans; [exact E2|exact E3]. }
-      assert (Hp3 : pth (ms x3) idn = P) by (simpl; rewrite pth_finished; exact Hp2).
-      pose proof (sim_bind_alias x x3 sx3 env senv nm idn G3 (envrel_ext _ _ _ _ I E03 He)) as Hba.
-      rewrite Hp3 in Hba. rewrite (curp_same x sx x3 sx3 G G3 Hf3 E03) in Hba.
-      apply Hba; [exact S3|exact Hf3|exact E03]. }
-    (* the registry hit *)
-    unfold do_step at 1. unfold mstep at 1. unfold step at 1. fold (DS x (EStartImport P)) in Hload.
-    destruct (alookup (reg (ms x)) P) as [id|] eqn:Er.
-    - destruct (m_imported (getmod (ms x) id)) eqn:Ei.
-      + (* a finished module *)
-        destruct (mod_entry _ _ P id R (conj Er Ei)) as (sm & Hsm & _).
-        destruct (r_some _ _ R _ _ Hsm) as (i & A1 & A2 & _). rewrite Er in A1. inversion A1; subst i.
-        rewrite Ei in A2. unfold s_import, spec_import. rewrite Hsm.
-        destruct (s_status sm); [discriminate|].
-        rewrite (g_dead _ _ G). unfold start_import. rewrite Er, Ei. cbn [bind_s fst snd]. rewrite sx_eta.
-        set (x1 := with_ms x (log_yield P id (ms x))).
-        assert (G1 : Good x1 sx).
-        { apply (good_step_same x sx (EStartImport P)); auto.
-          unfold step. rewrite (g_dead _ _ G). unfold start_import. rewrite Er, Ei. reflexivity. }
-        destruct (i_reg1 _ _ I _ _ Er) as [Hlt Hpid].
-        pose proof (sim_bind_alias x x1 sx env senv nm id G1 He) as Hba.
-        change (pth (ms x1) id) with (pth (ms x) id) in Hba. unfold pth in Hba. rewrite Hpid in Hba.
-        apply Hba; [split; auto|reflexivity|apply ext_same; reflexivity].
-      + destruct (is_loading (ms x) id) eqn:El.
-        * (* still loading: a cycle *)
-          assert (Hsm : exists sm, alookup (s_mods (ss sx)) P = Some sm /\ s_status sm = Loading).
-          { destruct (alookup (s_mods (ss sx)) P) as [sm|] eqn:E.
-            - exists sm. split; auto. destruct (r_some _ _ R _ _ E) as (i & A1 & A2 & _). rewrite Er in A1. inversion A1; subst i.
-              rewrite Ei in A2. destruct (s_status sm); [reflexivity|discriminate].
-            - exfalso. destruct (r_none _ _ R _ E) as [H|(i & A1 & _ & A3)]; [congruence|].
-              rewrite Er in A1. inversion A1; subst i. congruence. }
-          destruct Hsm as (sm & Hsm & Hst). unfold s_import, spec_import. rewrite Hsm, Hst.
-          rewrite (g_dead _ _ G). unfold start_import. rewrite Er, Ei, El. cbn [negb orb].
-          rewrite (raise_dead _ _ (g_hand _ _ G)). cbn [bind_s fst snd]. rewrite sx_eta.
-          exact (sim_dead x x sx (ms x) (XErr (mkerr KImport [cyc_msg P])) (SXErr (mkerr KImport [cyc_msg P])) (g_out _ _ G) (r_loads _ _ R) (conj eq_refl eq_refl)).
-        * (* the leftover of a failed import *)
-          assert (Hsn : alookup (s_mods (ss sx)) P = None).
-          { destruct (alookup (s_mods (ss sx)) P) as [sm|] eqn:E; auto. exfalso.
-            destruct (r_some _ _ R _ _ E) as (i & A1 & A2 & A3 & _). rewrite Er in A1. inversion A1; subst i.
-            destruct (s_status sm); [rewrite A3 in El; [discriminate|reflexivity]|congruence]. }
-          fold (stepP (ms x) (EStartImport P)). fold (mstep prog cm B fm true true (ms x) (EStartImport P)).
-          fold (DS x (EStartImport P)).
-          apply (Hload (set_reg (ms x) (aremove (reg (ms x)) P))); auto.
-          -- apply (prep_leftover _ _ id); auto.
-          -- unfold step. rewrite (g_dead _ _ G). unfold start_import. rewrite Er, Ei, El. reflexivity.
-    - assert (Hsn : alookup (s_mods (ss sx)) P = None).
-      { destruct (alookup (s_mods (ss sx)) P) as [sm|] eqn:E; auto. exfalso.
-        destruct (r_some _ _ R _ _ E) as (i & A1 & _). congruence. }
-      fold (stepP (ms x) (EStartImport P)). fold (mstep prog cm B fm true true (ms x) (EStartImport P)).
-      fold (DS x (EStartImport P)).
-      apply (Hload (ms x)); auto.
-      + apply prep_absent; auto.
-      + unfold step. rewrite (g_dead _ _ G). unfold start_import. rewrite Er. reflexivity.
-  Qed.
-
-  Lemma good_with x sx s' :
-    Good x sx -> InvP s' -> Rel s' (ss sx) -> FL s' -> handlers s' = [] -> dead s' = None -> Good (with_ms x s') sx.
-  Proof. intros G a b c d e. constructor; simpl; auto. apply (g_out _ _ G). Qed.
-
-  Lemma sim_call fuel x sx env senv w sw :
-    tf_prog = true -> IHsim fuel -> Good x sx -> envrel (ms x) env senv -> sw = tv (ms x) w ->
-    (forall m key, w = VFn m key -> alookup (reg (ms x)) (pth (ms x) m) = Some m /\ live (ms x) m) ->
-    Sim x (RT (S fuel) (TkCall env w) x) (ST (S fuel) (curp x) (List.length (frames (ms x))) (SkCall senv sw) sx).
-  Proof.
-    intros Htf IH G He -> Hw. pose proof (g_inv _ _ G) as I. pose proof (g_rel _ _ G) as R.
-    destruct w; simpl; try reflexivity.
-    destruct (find_fn prog f) as [body|] eqn:Eb; [|reflexivity].
-    destruct (Hw m f eq_refl) as [Hr Hl].
-    destruct (i_reg1 _ _ I _ _ Hr) as [Hlt _].
-    unfold do_step, mstep. unfold step. rewrite (g_dead _ _ G).
-    apply Nat.ltb_lt in Hlt. rewrite Hlt. unfold call_closure.
-    destruct (Nat.eqb (List.length (frames (ms x))) fm) eqn:Efm.
-    - rewrite (raise_dead _ _ (g_hand _ _ G)). cbn [bind_s fst snd]. unfold raise_s.
-      exact (sim_dead x x sx (ms x) (XErr (mkerr KIndex [stack_overflow_msg])) (SXErr (mkerr KIndex [stack_overflow_msg]))
-                      (g_out _ _ G) (r_loads _ _ R) (conj eq_refl eq_refl)).
-    - cbn [bind_s fst snd].
-      change (load_frame (set_frames (ms x) (mkframe m false :: frames (ms x)))) with (pushed (ms x) m).
-      set (x1 := with_ms x (pushed (ms x) m)).
-      assert (Hst1 : pushed (ms x) m = fst (stepP (ms x) (ECall m))).
-      { unfold step. rewrite (g_dead _ _ G), Hlt. unfold call_closure. rewrite Efm. reflexivity. }
-      assert (G1 : Good x1 sx).
-      { apply good_with; auto.
-        - rewrite Hst1. apply step_inv; exact I.
-        - apply (rel_same (ms x)); auto.
-        - apply fl_pushed; auto. apply (g_fl _ _ G).
-        - apply (g_hand _ _ G).
-        - apply (g_dead _ _ G). }
-      assert (Hcur1 : curp x1 = pth (ms x) m) by reflexivity.
-      pose proof (IH (TkExec body [[]]) (SkExec body [[]]) x1 sx G1) as Hb.
-      rewrite Hcur1 in Hb. change (frames (ms x1)) with (mkframe m false :: frames (ms x)) in Hb.
-      simpl List.length in Hb.
-      specialize (Hb (conj eq_refl (Forall2_cons _ _ (Forall2_nil _) (Forall2_nil _))) (find_fn_tf _ _ Htf Eb)).
-      destruct (RT fuel (TkExec body [[]]) x1) as [env2 x2|? ? ?|e2 x2| |w2];
-        destruct (ST fuel (pth (ms x) m) (S (List.length (frames (ms x)))) (SkExec body [[]]) sx) as [senv2 sx2|se2 sx2| |w2'];
-        simpl in Hb; try contradiction; auto.
-      destruct Hb as (G2 & F2 & E2 & _).
-      destruct (active_frame _ I (g_dead _ _ G)) as (f0 & r & Ef & Ha).
-      assert (Hfr2 : frames (ms x2) = mkframe m false :: f0 :: r) by (rewrite F2, Ef; reflexivity).
-      unfold do_step, mstep. unfold step. rewrite (g_dead _ _ G2), Hfr2. cbn [f_body fst snd bind_s].
-      change (load_frame (set_frames (ms x2) (f0 :: r))) with (popped (ms x2) (f0 :: r)).
-      set (x3 := with_ms x2 (popped (ms x2) (f0 :: r))).
-      assert (Hst3 : popped (ms x2) (f0 :: r) = fst (stepP (ms x2) EReturn)).
-      { unfold step. rewrite (g_dead _ _ G2), Hfr2. reflexivity. }
-      assert (G3 : Good x3 sx2).
-      { apply good_with; auto.
-        - rewrite Hst3. apply step_inv. apply (g_inv _ _ G2).
-        - apply (rel_same (ms x2)); auto; [intros j; apply (is_loading_popped (ms x2) (mkframe m false) (f0 :: r) j Hfr2 eq_refl)|apply (g_rel _ _ G2)].
-        - apply (fl_popped (ms x2) (mkframe m false)); auto. apply (g_fl _ _ G2).
-        - apply (g_hand _ _ G2).
-        - apply (g_dead _ _ G2). }
-      assert (E03 : ext (ms x) (ms x3)).
-      { eapply ext_trans; [apply (ext_same (ms x) (pushed (ms x) m)); reflexivity|].
-        eapply ext_trans; [exact E2|apply ext_same; reflexivity]. }
-      simpl. split; [exact G3|]. split; [simpl; rewrite Ef; reflexivity|]. split; [exact E03|].
-      apply (envrel_ext (ms x)); auto.
-  Qed.
-
-  Lemma sim_emit x0 x sx env senv l :
-    Good x sx -> envrel (ms x) env senv -> frames (ms x) = frames (ms x0) -> ext (ms x0) (ms x) ->
-    Sim x0 (RNormal env (emit x l)) (QNormal senv (semit sx l)).
-  Proof. intros G He Hf Hx. simpl. split; [apply good_emit; exact G|]. auto. Qed.
-
-  Lemma sim_define x0 x sx nm v :
-    Good x sx -> vok (ms x) (active (ms x)) v -> frames (ms x) = frames (ms x0) -> ext (ms x0) (ms x) ->
-    Sim x0 (bind_s (DS x (EDefineGlobal nm v)) (fun x1 _ => RNormal [] x1)) (QNormal [] (sset (curp x) sx nm (tv (ms x) v))).
-  Proof.
-    intros G Hv Hf Hx. destruct (cur_entry x sx G) as (Hr & _ & sm & Hsm & _).
-    unfold do_step, mstep. unfold step. rewrite (g_dead _ _ G). cbn [bind_s fst snd].
-    exact (sim_normal_upd x0 x sx [] [] (curp x) (active (ms x)) sm nm v G (Forall2_nil _) Hr Hsm Hv Hf Hx).
-  Qed.
-
-  Lemma sim_set x0 x sx env senv nm n :
-    Good x sx -> envrel (ms x) env senv -> frames (ms x) = frames (ms x0) -> ext (ms x0) (ms x) ->
-    Sim x0 (bind_s (DS x (ESetGlobal nm (VNum n))) (fun x1 _ => RNormal env x1))
-           (sget (curp x) sx nm (fun _ => QNormal senv (sset (curp x) sx nm (SNum n)))).
-  Proof.
-    intros G He Hf Hx. destruct (cur_entry x sx G) as (Hr & _ & sm & Hsm & [A1 A2]).
-    unfold do_step, mstep. unfold step. rewrite (g_dead _ _ G).
-    unfold sget, curp. rewrite (sglobals_entry _ _ _ Hsm), A1.
-    destruct (alookup (attrs_of (ms x) (active (ms x))) nm) as [v|] eqn:E; cbn [option_map bind_s fst snd].
-    - exact (sim_normal_upd x0 x sx env senv (curp x) (active (ms x)) sm nm (VNum n) G He Hr Hsm Logic.I Hf Hx).
-    - rewrite (raise_dead _ _ (g_hand _ _ G)). cbn [bind_s fst snd].
-      exact (sim_dead x0 x sx (ms x) (XErr (mkerr KName [undefined_variable nm])) (SXErr (mkerr KName [undefined_variable nm]))
-                      (g_out _ _ G) (r_loads _ _ (g_rel _ _ G)) (conj eq_refl eq_refl)).
-  Qed.
-
-  Lemma sim_getattr x0 x sx id nm ill (K : xst -> value -> res) (SK : svalue -> sresult) :
-    Good x sx -> settled (ms x) (pth (ms x) id) id ->
-    (forall u, alookup (attrs_of (ms x) id) nm = Some u -> vok (ms x) id u -> Sim x0 (K x u) (SK (tv (ms x) u))) ->
-    Sim x0 (bind_s (DS x (EGetAttr id nm)) (fun x3 o => match o with OValue u => K x3 u | _ => RIll ill end))
-           (match alookup (sglobals (ss sx) (pth (ms x) id)) nm with
-            | Some u => SK u
-            | None => raise_s sx KAttribute (undefined_property nm)
-            end).
-  Proof.
-    intros G Hs HK. destruct (mod_entry _ _ _ _ (g_rel _ _ G) Hs) as (sm & Hsm & [A1 A2]).
-    unfold do_step, mstep. unfold step. rewrite (g_dead _ _ G).
-    rewrite (sglobals_entry _ _ _ Hsm), A1.
-    destruct (alookup (attrs_of (ms x) id) nm) as [u|] eqn:E; cbn [option_map bind_s fst snd].
-    - rewrite with_ms_id. apply HK; auto. eapply A2; eauto.
-    - rewrite (raise_dead _ _ (g_hand _ _ G)). cbn [bind_s fst snd].
-      exact (sim_dead x0 x sx (ms x) (XErr (mkerr KAttribute [undefined_property nm])) (SXErr (mkerr KAttribute [undefined_property nm]))
-                      (g_out _ _ G) (r_loads _ _ (g_rel _ _ G)) (conj eq_refl eq_refl)).
-  Qed.
-
-  Lemma sim_setattr x0 x sx env senv id nm n :
-    Good x sx -> envrel (ms x) env senv -> settled (ms x) (pth (ms x) id) id ->
-    frames (ms x) = frames (ms x0) -> ext (ms x0) (ms x) ->
-    Sim x0 (bind_s (DS x (ESetAttr id nm (VNum n))) (fun x2 _ => RNormal env x2))
-           (QNormal senv (sset (pth (ms x) id) sx nm (SNum n))).
-  Proof.
-    intros G He Hs Hf Hx. destruct (mod_entry _ _ _ _ (g_rel _ _ G) Hs) as (sm & Hsm & _).
-    unfold do_step, mstep. unfold step. rewrite (g_dead _ _ G). cbn [bind_s fst snd].
-    exact (sim_normal_upd x0 x sx env senv (pth (ms x) id) id sm nm (VNum n) G He (proj1 Hs) Hsm Logic.I Hf Hx).
-  Qed.
-
-  Lemma good_note x sx nm : Good x sx -> Good (note_main_only x nm) sx.
-  Proof.
-    intros G. unfold note_main_only. destruct (Nat.eqb _ _); auto. destruct (alookup _ _); auto.
-    apply (good_ms x); auto.
-  Qed.
-
   Lemma ms_note x nm : ms (note_main_only x nm) = ms x.
   Proof. unfold note_main_only. destruct (Nat.eqb _ _); auto. destruct (alookup _ _); auto. Qed.
 
-  Lemma sim_builtin3 x sx env senv :
-    Good x sx -> envrel (ms x) env senv ->
-    Sim x (GG (note_main_only x "RuntimeError") "RuntimeError" (fun x2 w => RNormal env (emit x2 (display_m (ms x2) w))))
-          (sget (curp x) sx "RuntimeError" (fun w => QNormal senv (semit sx (display_s w)))).
-  Proof.
-    intros G He.
-    replace (curp x) with (curp (note_main_only x "RuntimeError")) by (unfold curp; rewrite ms_note; reflexivity).
-    apply (sim_get x (note_main_only x "RuntimeError")); [apply good_note; auto|].
-    intros w _ _. rewrite display_tv. apply sim_emit.
-    - apply good_note; auto.
-    - rewrite ms_note; auto.
-    - rewrite ms_note; reflexivity.
-    - rewrite ms_note; apply ext_refl.
-  Qed.
-
-
-  (* ============================================================================================ *)
-  (* the Spec evaluator alone: a task leaves the set of Loading modules as it found it *)
   Definition ils (ss : sstate) (p : path) : bool :=
     match alookup (s_mods ss) p with
     | Some sm => match s_status sm with Loading => true | Loaded => false end
@@ -1256,7 +733,7 @@ Section Refine.
   Definition SB (sx0 : sx) (q : sresult) : Prop :=
     match q with
     | QNormal _ sx' | QRaised _ sx' => forall p, ils (ss sx') p = ils (ss sx0) p
-    | _ => True
+    | _ => True            (* a fatal exception: the run is over, nothing is claimed *)
     end.
 
   Lemma ils_set ss q x v p : ils (set_sglobal ss q x v) p = ils ss p.
@@ -1284,10 +761,10 @@ Section Refine.
   Proof.
     induction fuel as [|fuel IH]; intros cur depth tk sx0; [exact Logic.I|].
     assert (R0 : forall p, ils (ss sx0) p = ils (ss sx0) p) by reflexivity.
-    destruct tk as [l env|s env|env w|ts src]; cbn [srun_task].
+    destruct tk as [l env|s env|env w|k f env|ts src]; cbn [srun_task].
     - destruct l as [|s rest]; [simpl; auto|].
       pose proof (IH cur depth (SkExec1 s env) sx0) as H1.
-      destruct (ST fuel cur depth (SkExec1 s env) sx0) as [e1 sx1| | |]; auto.
+      destruct (ST fuel cur depth (SkExec1 s env) sx0) as [e1 sx1| | | |]; auto.
       apply (SB_trans sx0 sx1); auto.
     - destruct s.
       + apply SB_sget; [exact R0|]. intros _. simpl; intros; reflexivity.
@@ -1324,7 +801,7 @@ Section Refine.
               destruct b; unfold ils, set_mod; simpl.
               + rewrite alookup_ainsert_other; auto.
               + rewrite alookup_aremove, E. reflexivity. }
-          destruct (ST fuel P (S depth) (SkTops body (N.to_nat p)) sx1) as [e2 sx2|se2 sx2| |]; auto.
+          destruct (ST fuel P (S depth) (SkTops body (N.to_nat p)) sx1) as [e2 sx2|se2 sx2| | |]; auto.
           -- apply SB_sbind. simpl. apply Hfin. exact H2.
           -- simpl. apply Hfin. exact H2.
       + apply SB_sget; [exact R0|]. intros _. apply SB_sresolve; [exact R0|]. intros w. destruct w; simpl; auto.
@@ -1336,130 +813,33 @@ Section Refine.
       + simpl. auto.
       + apply SB_sget; [exact R0|]. intros _. destruct k as [|[q|[q|q|]|]];
           repeat (first [apply SB_sget; [exact R0|]; intros | (simpl; intros; reflexivity)]).
+      + apply IH.
       + pose proof (IH cur depth (SkExec body ([] :: env)) sx0) as H1.
-        destruct (ST fuel cur depth (SkExec body ([] :: env)) sx0) as [e1 sx1|se1 sx1| |]; auto.
+        destruct (ST fuel cur depth (SkExec body ([] :: env)) sx0) as [e1 sx1|se1 sx1| | |]; auto.
         simpl in H1. apply SB_sget; [exact H1|]. intros _. apply SB_sget; [exact H1|]. intros _.
         apply SB_sget; [exact H1|]. intros _. apply SB_sget; [exact H1|]. intros _. apply SB_sget; [exact H1|].
         intros _. simpl. exact H1.
       + pose proof (IH cur depth (SkExec body ([] :: env)) sx0) as H1.
-        destruct (ST fuel cur depth (SkExec body ([] :: env)) sx0) as [e1 sx1|se1 sx1| |]; auto.
+        destruct (ST fuel cur depth (SkExec body ([] :: env)) sx0) as [e1 sx1|se1 sx1| | |]; auto.
     - destruct w; simpl; auto. destruct (find_fn prog f); simpl; auto.
       destruct (Nat.eqb depth fm); [simpl; auto|].
       pose proof (IH p (S depth) (SkExec l [[]]) sx0) as H1.
       destruct (ST fuel p (S depth) (SkExec l [[]]) sx0); auto.
+    - destruct k as [|k'].
+      + apply SB_sget; [exact R0|]. intros w. apply IH.
+      + apply SB_sget; [exact R0|]. intros _.
+        pose proof (IH cur 1 (SkFiber k' f env) sx0) as H1.
+        destruct (ST fuel cur 1 (SkFiber k' f env) sx0); simpl in *; auto.
     - destruct ts as [|t rest]; [simpl; auto|].
       destruct t.
       + pose proof (IH cur depth (SkExec1 s []) sx0) as H1.
-        destruct (ST fuel cur depth (SkExec1 s []) sx0) as [e1 sx1| | |]; auto.
+        destruct (ST fuel cur depth (SkExec1 s []) sx0) as [e1 sx1| | | |]; auto.
         apply (SB_trans sx0 sx1); auto.
       + apply (SB_trans sx0 (sset cur sx0 (var_name x) (SNum n))); [intros p; apply ils_set|apply IH].
       + apply (SB_trans sx0 (sset cur sx0 (fn_name f) (SFn cur (fn_key src f)))); [intros p; apply ils_set|apply IH].
   Qed.
 
   (* ---- the main simulation, try-free programs ---- *)
-  Lemma sim_task : tf_prog = true -> forall fuel, IHsim fuel.
-  Proof.
-    intros Htf. induction fuel as [|fuel IH]; intros tk stk x sx G Ht Hf.
-    { simpl. exact Logic.I. }
-    pose proof (g_inv _ _ G) as I.
-    destruct tk as [l env|s env|env w|ts src]; destruct stk as [l' senv|s' senv|senv sw|ts' src']; simpl in Ht; try contradiction.
-    - (* a statement list *)
-      destruct Ht as [<- He]. destruct l as [|s rest]; [apply sim_refl_normal; auto|].
-      simpl in Hf. apply andb_true_iff in Hf. destruct Hf as [Hf1 Hf2].
-      refine (sim_seq x (RT fuel (TkExec1 s env) x) (ST fuel (curp x) (List.length (frames (ms x))) (SkExec1 s senv) sx)
-                      (fun env' x' => RT fuel (TkExec rest env') x')
-                      (fun senv' sx' => ST fuel (curp x) (List.length (frames (ms x))) (SkExec rest senv') sx') _ _).
-      + apply IH; auto. simpl; auto.
-      + intros env' x' senv' sx' G' F' E' V'.
-        pose proof (IH (TkExec rest env') (SkExec rest senv') x' sx' G' (conj eq_refl V') Hf2) as H.
-        rewrite (curp_same x sx x' sx' G G' F' E'), F' in H. eapply Sim_trans; eauto.
-    - (* one statement *)
-      destruct Ht as [<- He]. destruct s; cbn [run_task srun_task].
-      + (* print tag *)
-        apply sim_get; auto. intros v _ _. apply sim_emit; auto. apply ext_refl.
-      + (* print global *)
-        apply sim_get; auto. intros v _ _. apply sim_get; auto. intros w _ _.
-        rewrite display_tv. apply sim_emit; auto. apply ext_refl.
-      + (* global assignment *)
-        apply sim_set; auto. apply ext_refl.
-      + (* import *)
-        apply (sim_import fuel x sx env senv p a Htf IH G He).
-      + (* print attribute *)
-        apply sim_get; auto. intros v _ _. apply sim_resolve; auto. intros w Hm _.
-        destruct w; try reflexivity.
-        apply (sim_getattr x x sx id (var_name x0) "getattr"
-                 (fun x3 u => RNormal env (emit x3 (display_m (ms x3) u))) (fun u => QNormal senv (semit sx (display_s u)))); auto.
-        intros u _ _. rewrite display_tv. apply sim_emit; auto. apply ext_refl.
-      + (* attribute assignment *)
-        apply sim_resolve; auto. intros w Hm _. destruct w; try reflexivity.
-        apply sim_setattr; auto. apply ext_refl.
-      + (* call of a global function *)
-        apply sim_get; auto. intros w _ Hok.
-        destruct (cur_entry x sx G) as (Hr & Hl & _).
-        apply (IH (TkCall env w) (SkCall senv (tv (ms x) w)) x sx G); [|reflexivity].
-        split; [exact He|]. split; [reflexivity|]. intros m key ->. simpl in Hok. subst m. auto.
-      + (* call of a module's function *)
-        apply sim_resolve; auto. intros w Hm _. destruct w; try reflexivity.
-        apply (sim_getattr x x sx id (fn_name f) "invoke"
-                 (fun x2 u => RT fuel (TkCall env u) x2)
-                 (fun u => ST fuel (curp x) (List.length (frames (ms x))) (SkCall senv u) sx)); auto.
-        intros u _ Hok.
-        apply (IH (TkCall env u) (SkCall senv (tv (ms x) u)) x sx G); [|reflexivity].
-        split; [exact He|]. split; [reflexivity|]. intros m key ->. simpl in Hok. subst m.
-        destruct (Hm id eq_refl) as [H1 H2]. split; [exact H1|left; exact H2].
-      + (* throw *)
-        unfold do_step, mstep. unfold step. rewrite (g_dead _ _ G).
-        rewrite (raise_dead _ _ (g_hand _ _ G)). cbn [bind_s fst snd].
-        apply (sim_dead x x sx (ms x) (XVal (VStr thrown_text)) (SXVal (SStr thrown_text)) (g_out _ _ G) (r_loads _ _ (g_rel _ _ G))).
-        simpl. split; [reflexivity|]. split; intros; discriminate.
-      + (* built-in uses *)
-        apply sim_get; auto. intros v _ _.
-        destruct k as [|[q|[q|q|]|]].
-        * apply sim_get; auto. intros w _ _. apply sim_emit; auto. apply ext_refl.
-        * apply sim_builtin3; auto.
-        * apply sim_builtin3; auto.
-        * apply sim_builtin3; auto.
-        * apply sim_get; auto. intros w _ _. apply sim_get; auto. intros w2 _ _. apply sim_emit; auto. apply ext_refl.
-        * apply sim_get; auto. intros w _ _. rewrite display_tv. apply sim_emit; auto. apply ext_refl.
-      + (* try: excluded *)
-        simpl in Hf. discriminate.
-      + (* block *)
-        change (tf_stmt (SBlock body) = true) in Hf. rewrite tf_block in Hf.
-        refine (sim_seq x (RT fuel (TkExec body ([] :: env)) x) (ST fuel (curp x) (List.length (frames (ms x))) (SkExec body ([] :: senv)) sx)
-                        (fun _ x1 => RNormal env x1) (fun _ sx1 => QNormal senv sx1) _ _).
-        * apply IH; auto. simpl. split; [reflexivity|]. constructor; [constructor|exact He].
-        * intros env' x' senv' sx' G' F' E' _. simpl. split; [exact G'|]. split; [exact F'|]. split; [exact E'|].
-          apply (envrel_ext (ms x)); auto.
-    - (* call *)
-      destruct Ht as (He & -> & Hw). apply sim_call; auto.
-    - (* top level of a module *)
-      destruct Ht as [<- <-]. destruct ts as [|t rest]; [apply sim_refl_normal; auto; constructor|].
-      simpl in Hf. apply andb_true_iff in Hf. destruct Hf as [Hf1 Hf2].
-      assert (Hk : forall env' x' senv' sx', Good x' sx' -> frames (ms x') = frames (ms x) -> ext (ms x) (ms x') ->
-                   envrel (ms x') env' senv' ->
-                   Sim x (RT fuel (TkTops rest src) x') (ST fuel (curp x) (List.length (frames (ms x))) (SkTops rest src) sx')).
-      { intros env' x' senv' sx' G' F' E' _.
-        pose proof (IH (TkTops rest src) (SkTops rest src) x' sx' G' (conj eq_refl eq_refl) Hf2) as H.
-        rewrite (curp_same x sx x' sx' G G' F' E'), F' in H. eapply Sim_trans; eauto. }
-      destruct t.
-      + refine (sim_seq_var x (RT fuel (TkExec1 s []) x) (ST fuel (curp x) (List.length (frames (ms x))) (SkExec1 s []) sx)
-                        (fun _ x' => RT fuel (TkTops rest src) x')
-                        (fun _ sx' => ST fuel (curp x) (List.length (frames (ms x))) (SkTops rest src) sx') _ Hk).
-        apply IH; auto. simpl. split; [reflexivity|constructor].
-      + refine (sim_seq_var x (bind_s (DS x (EDefineGlobal (var_name x0) (VNum n))) (fun x1 _ => RNormal [] x1))
-                        (QNormal [] (sset (curp x) sx (var_name x0) (SNum n)))
-                        (fun _ x' => RT fuel (TkTops rest src) x')
-                        (fun _ sx' => ST fuel (curp x) (List.length (frames (ms x))) (SkTops rest src) sx') _ Hk).
-        apply (sim_define x x sx (var_name x0) (VNum n)); auto. exact Logic.I. apply ext_refl.
-      + refine (sim_seq_var x (bind_s (DS x (EDefineGlobal (fn_name f) (VFn (active (ms x)) (fn_key src f)))) (fun x1 _ => RNormal [] x1))
-                        (QNormal [] (sset (curp x) sx (fn_name f) (SFn (curp x) (fn_key src f))))
-                        (fun _ x' => RT fuel (TkTops rest src) x')
-                        (fun _ sx' => ST fuel (curp x) (List.length (frames (ms x))) (SkTops rest src) sx') _ Hk).
-        apply (sim_define x x sx (fn_name f) (VFn (active (ms x)) (fn_key src f))); auto. reflexivity. apply ext_refl.
-  Qed.
-
-  (* ============================================================================================ *)
-  (* the initial states are related *)
   Lemma alookup_builtin_attrs (l : list name) st x :
     alookup (map (fun b => (b, SBuiltin b)) l) x = option_map (tv st) (alookup (builtin_attrs l) x).
   Proof.
@@ -1473,64 +853,12 @@ Section Refine.
     destruct (String.eqb b x); [intros E; inversion E; eauto|auto].
   Qed.
 
-  Lemma good_init : Good (mech_init B C) (mksx (spec_init (B ++ C)) [] "").
-  Proof.
-    assert (Hg : forall id, getmod (ms (mech_init B C)) id = nth id [mkmod main_path false (main_attrs B C)] (empty_mod "")) by reflexivity.
-    constructor.
-    - apply init_inv. intros b Hb. apply main_attrs_have_builtins; auto.
-    - constructor.
-      + reflexivity.
-      + intros p sm Hp.
-        change (alookup [(main_path, mksmod Loading (startup_globals (B ++ C)))] p = Some sm) in Hp. cbn [alookup] in Hp.
-        destruct (String.eqb main_path p) eqn:E; [|discriminate].
-        inversion Hp; subst sm. apply String.eqb_eq in E; subst p.
-        exists 0. split; [reflexivity|]. split; [reflexivity|]. split; [reflexivity|].
-        split.
-        * intros x. unfold attrs_of. rewrite Hg. cbn [nth m_attrs s_globals]. apply alookup_builtin_attrs.
-        * intros x v Hx. unfold attrs_of in Hx. rewrite Hg in Hx. cbn [nth m_attrs] in Hx.
-          destruct (builtin_attrs_values _ _ _ Hx) as (b & ->). exact Logic.I.
-      + intros p Hp.
-        change (alookup [(main_path, mksmod Loading (startup_globals (B ++ C)))] p = None) in Hp. cbn [alookup] in Hp.
-        left. change (alookup [(main_path, 0)] p = None). cbn [alookup].
-        destruct (String.eqb main_path p); [discriminate|reflexivity].
-    - intros f [<-|[]]. split; [reflexivity|right; reflexivity].
-    - reflexivity.
-    - reflexivity.
-    - reflexivity.
-  Qed.
-
   Lemma display_closed st st' v : (forall id, v <> VMod id) -> display_m st v = display_m st' v.
   Proof. intros H. destruct v; simpl; auto. exfalso. apply (H id); reflexivity. Qed.
 
   (* Stage A: programs without try/catch (all import graphs - chains, DAGs, diamonds, self-imports and longer
      cycles, missing and uncompilable modules; functions exported across modules; the frame limit).  An error is
      then always fatal; printed lines, loader calls and the outcome agree for every fuel. *)
-  Theorem mech_refines_spec_tryfree fuel :
-    tf_prog = true -> mech_obs prog cm B fm true true fuel C = spec_obs prog (B ++ C) fm fuel.
-  Proof.
-    intros Htf. unfold mech_obs, spec_obs. destruct prog as [|[ts| |k] rest] eqn:Ep; auto.
-    assert (Hts : forallb tf_top ts = true).
-    { unfold tf_prog in Htf. rewrite Ep in Htf. simpl in Htf. apply andb_true_iff in Htf. tauto. }
-    rewrite <- Ep.
-    pose proof (sim_task Htf fuel (TkTops ts 0) (SkTops ts 0) _ _ good_init (conj eq_refl eq_refl) Hts) as H.
-    unfold exec_tops, sexec_tops.
-    change (curp (mech_init B C)) with main_path in H.
-    change (List.length (frames (ms (mech_init B C)))) with 1 in H.
-    destruct (RT fuel (TkTops ts 0) (mech_init B C)) as [env' x'|h e x'|e x'| |w];
-      destruct (ST fuel main_path 1 (SkTops ts 0) (mksx (spec_init (B ++ C)) [] "")) as [senv' sx'|se sx'| |w']; simpl in H; try contradiction; auto.
-    - destruct H as (G & _). rewrite (g_out _ _ G), (r_loads _ _ (g_rel _ _ G)). reflexivity.
-    - destruct H as (Ho & Hl & Hx). rewrite Ho, Hl. destruct e as [er|v], se as [er'|sv]; simpl in Hx; try contradiction.
-      + destruct Hx as [Hk Hm]. unfold dead_kind, dead_messages. simpl. rewrite Hk, Hm. reflexivity.
-      + destruct Hx as (-> & Hn1 & Hn2). unfold dead_kind, dead_messages. simpl. rewrite display_tv.
-        rewrite (display_closed (init_state []) (ms x') v Hn1). reflexivity.
-    - subst. reflexivity.
-  Qed.
-
-  (* ============================================================================================ *)
-  (* ============================================================================================ *)
-  (* Stage B: programs with try / catch.  Exceptions are caught: the Mechanism truncates the frame stack at once
-     (handler = frame count), the Spec lets the exception climb through the import statements one by one. *)
-
   Definition loading_in (fs : list frame) (id : nat) : bool :=
     existsb (fun f => f_body f && Nat.eqb (f_mod f) id) fs.
 
@@ -1666,21 +994,33 @@ Section Refine.
     gz_hw : HW x
   }.
 
+  (* has the running fiber a handler of its own?  (the handlers of waiting fibers do not count) *)
+  Definition usable (st : state) : bool :=
+    match handlers st with h :: _ => Nat.ltb (base_len st) h | [] => false end.
+
   Definition SimG (x0 : xst) (r : res) (q : sresult) : Prop :=
     match r, q with
     | RNormal env' x', QNormal senv' sx' =>
       GoodG x' sx' /\ frames (ms x') = frames (ms x0) /\ handlers (ms x') = handlers (ms x0) /\ hids x' = hids x0
       /\ ext (ms x0) (ms x') /\ envrel (ms x') env' senv'
     | RUnwound h e x', QRaised se sx' =>
-      exists fc hs his, handlers (ms x0) = fc :: hs /\ hids x0 = h :: his /\ handlers (ms x') = hs /\ hids x' = his
+      exists fc hs his, handlers (ms x0) = fc :: hs /\ base_len (ms x0) < fc /\ hids x0 = h :: his
+                        /\ handlers (ms x') = hs /\ hids x' = his
                         /\ frames (ms x') = keep_bottom fc (frames (ms x0)) /\ GoodZ x' sx' /\ ext (ms x0) (ms x')
                         /\ excrel (ms x') e se
     | RDead e x', QRaised se sx' =>
-      handlers (ms x0) = [] /\ xout x' = sout sx' /\ s_loads (ss sx') = loads (ms x') /\ excrel (ms x') e se
+      (* no handler in the running fiber: the Mechanism is dead at once, the Spec's exception is still climbing
+         towards the fiber boundary (or the script's end) *)
+      usable (ms x0) = false /\ xout x' = sout sx' /\ s_loads (ss sx') = loads (ms x') /\ excrel (ms x') e se
+    | RDead e x', QFatal se sx' =>
+      xout x' = sout sx' /\ s_loads (ss sx') = loads (ms x') /\ excrel (ms x') e se
     | RFuel, QFuel => True
     | RIll w, QIll w' => w = w'
     | _, _ => False
     end.
+
+  Lemma usable_same st st' : frames st' = frames st -> handlers st' = handlers st -> usable st' = usable st.
+  Proof. intros H1 H2. unfold usable, base_len. now rewrite H1, H2. Qed.
 
   Lemma SimG_trans x0 x1 r q :
     frames (ms x1) = frames (ms x0) -> handlers (ms x1) = handlers (ms x0) -> hids x1 = hids x0 ->
@@ -1689,10 +1029,11 @@ Section Refine.
     intros Hf Hh Hi He H. destruct r, q; simpl in *; auto.
     - destruct H as (G & F & Hd & Hs & E & V). split; auto. split; [congruence|]. split; [congruence|]. split; [congruence|].
       split; auto. eapply ext_trans; eauto.
-    - destruct H as (fc & hs & his & A1 & A2 & A3 & A4 & A5 & A6 & A7 & A8).
-      exists fc, hs, his. split; [congruence|]. split; [congruence|]. split; [exact A3|]. split; [exact A4|].
+    - destruct H as (fc & hs & his & A1 & A0 & A2 & A3 & A4 & A5 & A6 & A7 & A8).
+      exists fc, hs, his. split; [congruence|]. split; [unfold base_len in *; rewrite <- Hf; exact A0|]. split; [congruence|].
+      split; [exact A3|]. split; [exact A4|].
       split; [rewrite <- Hf; exact A5|]. split; [exact A6|]. split; [eapply ext_trans; eauto|exact A8].
-    - destruct H as (A0 & A1). split; [congruence|exact A1].
+    - destruct H as (A0 & A1). split; [rewrite <- (usable_same (ms x0) (ms x1)); auto|exact A1].
   Qed.
 
   Lemma GoodG_Good_parts x sx : GoodG x sx -> FL (ms x).
@@ -1759,10 +1100,16 @@ Section Refine.
     xout x = sout sx' -> ext (ms x0) st' -> excrel st' ex se ->
     SimG x0 (bind_s (dsr x (raise (list top) st' ex)) k) (QRaised se sx').
   Proof.
-    intros I R F Hd Hf Hh Hi [Hl Hs] Ho He Hx. unfold raise in *.
+    intros I R F Hd Hf Hh Hi [Hl Hs] Ho He Hx.
+    assert (Hdead : usable (ms x0) = false -> snd (raise (list top) st' ex) = ODead ex ->
+                    SimG x0 (bind_s (dsr x (killed st' ex, ODead ex)) k) (QRaised se sx')).
+    { intros Hu _. simpl. split; [exact Hu|]. split; auto. split; [apply (r_loads _ _ R)|exact Hx]. }
+    assert (Hus : usable (ms x0) = usable st') by (symmetry; apply usable_same; auto).
+    unfold raise in *. unfold usable in Hus at 2.
     destruct (handlers st') as [|fc hs] eqn:Eh.
-    - simpl. split; [symmetry; exact Hh|]. split; auto. split; [apply (r_loads _ _ R)|exact Hx].
-    - simpl in I. rewrite <- Hh in Hl, Hs. rewrite <- Hi in Hl. rewrite <- Hf in Hs.
+    - apply Hdead; auto.
+    - destruct (Nat.ltb (base_len st') fc) eqn:Elt; [|apply Hdead; auto].
+      simpl in I. rewrite <- Hh in Hl, Hs. rewrite <- Hi in Hl. rewrite <- Hf in Hs.
       destruct (hids x) as [|h his] eqn:Ehi; [simpl in Hl; discriminate|].
       cbn [dsr bind_s].
       set (s' := load_frame (set_handlers (set_frames st' (keep_bottom fc (frames st'))) hs)) in *.
@@ -1770,7 +1117,9 @@ Section Refine.
       assert (Hfc : fc <= List.length (frames st')).
       { inversion Hs as [|? ? _ Hfa]; subst. inversion Hfa; subst. unfold ge in *. lia. }
       rewrite Ehi. cbn [bind_s]. simpl.
-      exists fc, hs, his. split; [symmetry; exact Hh|]. split; [symmetry; exact Hi|]. split; [reflexivity|]. split; [reflexivity|].
+      exists fc, hs, his. split; [symmetry; exact Hh|].
+      split; [apply Nat.ltb_lt in Elt; unfold base_len in *; rewrite <- Hf; exact Elt|].
+      split; [symmetry; exact Hi|]. split; [reflexivity|]. split; [reflexivity|].
       split; [rewrite <- Hf; reflexivity|]. split; [|split].
       + constructor; simpl; auto.
         * apply (relz_truncate st'); auto. apply Rel_RelZ; auto.
@@ -1876,7 +1225,7 @@ Section Refine.
   Lemma simG_resolve x0 x sx env senv nm k sk :
     GoodG x sx -> Same x0 x -> envrel (ms x) env senv ->
     (forall v, modok (ms x) v -> (forall m key, v = VFn m key -> m = active (ms x)) -> SimG x0 (k x v) (sk (tv (ms x) v))) ->
-    SimG x0 (resolve prog cm B fm true true env x nm k) (sresolve (curp x) senv sx nm sk).
+    SimG x0 (resolve prog cm B fm true true true env x nm k) (sresolve (curp x) senv sx nm sk).
   Proof.
     intros G Sx He Hk. unfold resolve, sresolve.
     pose proof (lookup_local_rel (ms x) env senv nm He) as H.
@@ -1962,7 +1311,7 @@ Section Refine.
 
   Lemma simG_bind_alias x0 x sx env senv nm id :
     GoodG x sx -> Same x0 x -> envrel (ms x) env senv -> settled (ms x) (pth (ms x) id) id ->
-    SimG x0 (bind_alias prog cm B fm true true env x nm (VMod id)) (sbind (curp x) senv sx nm (SMod (pth (ms x) id))).
+    SimG x0 (bind_alias prog cm B fm true true true env x nm (VMod id)) (sbind (curp x) senv sx nm (SMod (pth (ms x) id))).
   Proof.
     intros G Sx He Hs. unfold bind_alias, sbind.
     destruct He as [|sc ssc env senv Hsc He].
@@ -1977,7 +1326,7 @@ Section Refine.
   Lemma fls_pushed st m :
     FLS st -> alookup (reg st) (pth st m) = Some m -> live st m -> FLS (pushed st m).
   Proof.
-    intros F Hr Hl. unfold FLS. change (frames (pushed st m)) with (mkframe m false :: frames st). simpl. split.
+    intros F Hr Hl. unfold FLS. change (frames (pushed st m)) with (mkframe m false false :: frames st). simpl. split.
     - split; [exact Hr|]. destruct Hl as [Hl|Hl]; [left; exact Hl|right; exact Hl].
     - apply (FLS_list_same st); auto.
   Qed.
@@ -1992,7 +1341,7 @@ Section Refine.
     InvP st -> FLS st -> prep st st0 P -> FLS (entered st0 P).
   Proof.
     intros I F [Ph Pf Pl Phd Pds Pn Po Pd]. unfold FLS.
-    change (frames (entered st0 P)) with (mkframe (List.length (heap st0)) true :: frames st0). simpl. split.
+    change (frames (entered st0 P)) with (mkframe (List.length (heap st0)) true false :: frames st0). simpl. split.
     - unfold pth. rewrite getmod_entered_new. simpl. split.
       + rewrite (alookup_app_none _ _ _ _ _ Pn), String.eqb_refl. reflexivity.
       + right. rewrite Nat.eqb_refl. reflexivity.
@@ -2040,6 +1389,7 @@ Section Refine.
            (match q with
             | QNormal e' x' => kq e' x'
             | QRaised e x' => QRaised e x'
+            | QFatal e x' => QFatal e x'
             | QFuel => QFuel
             | QIll w => QIll w
             end).
@@ -2069,7 +1419,7 @@ Section Refine.
 
   Definition IHsimG (fuel : nat) : Prop :=
     forall tk stk x sx, GoodG x sx -> task_rel (ms x) tk stk ->
-                        SimG x (RT fuel tk x) (ST fuel (curp x) (List.length (frames (ms x))) stk sx).
+                        SimG x (RT fuel tk x) (ST fuel (curp x) (fiber_depth (frames (ms x))) stk sx).
 
   Lemma keep_bottom_cons A k (a : A) l : k <= List.length l -> keep_bottom k (a :: l) = keep_bottom k l.
   Proof.
@@ -2083,21 +1433,21 @@ Section Refine.
   Lemma simG_call fuel x sx env senv w sw :
     IHsimG fuel -> GoodG x sx -> envrel (ms x) env senv -> sw = tv (ms x) w ->
     (forall m key, w = VFn m key -> alookup (reg (ms x)) (pth (ms x) m) = Some m /\ live (ms x) m) ->
-    SimG x (RT (S fuel) (TkCall env w) x) (ST (S fuel) (curp x) (List.length (frames (ms x))) (SkCall senv sw) sx).
+    SimG x (RT (S fuel) (TkCall env w) x) (ST (S fuel) (curp x) (fiber_depth (frames (ms x))) (SkCall senv sw) sx).
   Proof.
     intros IH G He -> Hw. pose proof (gg_inv _ _ G) as I. pose proof (gg_rel _ _ G) as R.
     destruct w; simpl; try reflexivity.
     destruct (find_fn prog f) as [body|] eqn:Eb; [|reflexivity].
     destruct (Hw m f eq_refl) as [Hr Hl].
     destruct (i_reg1 _ _ I _ _ Hr) as [Hlt _]. apply Nat.ltb_lt in Hlt.
-    destruct (Nat.eqb (List.length (frames (ms x))) fm) eqn:Efm.
+    destruct (Nat.eqb (fiber_depth (frames (ms x))) fm) eqn:Efm.
     - apply (sim_raise_here x x sx (ECall m) (XErr (mkerr KIndex [stack_overflow_msg]))); auto.
       + apply Same_refl.
       + unfold step. rewrite (gg_dead _ _ G), Hlt. unfold call_closure. rewrite Efm. reflexivity.
       + simpl; auto.
     - unfold do_step at 1. unfold mstep at 1. unfold step at 1. rewrite (gg_dead _ _ G), Hlt. unfold call_closure. rewrite Efm.
       cbn [bind_s fst snd].
-      change (load_frame (set_frames (ms x) (mkframe m false :: frames (ms x)))) with (pushed (ms x) m).
+      change (load_frame (set_frames (ms x) (mkframe m false false :: frames (ms x)))) with (pushed (ms x) m).
       set (x1 := with_ms x (pushed (ms x) m)).
       assert (Hst1 : pushed (ms x) m = fst (stepP (ms x) (ECall m))).
       { unfold step. rewrite (gg_dead _ _ G), Hlt. unfold call_closure. rewrite Efm. reflexivity. }
@@ -2110,16 +1460,16 @@ Section Refine.
         - simpl. lia. }
       assert (Hcur1 : curp x1 = pth (ms x) m) by reflexivity.
       pose proof (IH (TkExec body [[]]) (SkExec body [[]]) x1 sx G1) as Hb.
-      rewrite Hcur1 in Hb. change (frames (ms x1)) with (mkframe m false :: frames (ms x)) in Hb.
-      simpl List.length in Hb.
+      rewrite Hcur1 in Hb. change (frames (ms x1)) with (mkframe m false false :: frames (ms x)) in Hb.
+      cbn [fiber_depth f_base] in Hb.
       specialize (Hb (conj eq_refl (Forall2_cons _ _ (Forall2_nil _) (Forall2_nil _)))).
       destruct (RT fuel (TkExec body [[]]) x1) as [env2 x2|h2 e2 x2|e2 x2| |w2];
-        destruct (ST fuel (pth (ms x) m) (S (List.length (frames (ms x)))) (SkExec body [[]]) sx) as [senv2 sx2|se2 sx2| |w2'];
+        destruct (ST fuel (pth (ms x) m) (S (fiber_depth (frames (ms x)))) (SkExec body [[]]) sx) as [senv2 sx2|se2 sx2|sf2 sxf2| |w2'];
         simpl in Hb; try contradiction; auto.
       + (* the body returned *)
         destruct Hb as (G2 & F2 & Hh2 & Hi2 & E2 & _).
         destruct (active_frame _ I (gg_dead _ _ G)) as (f0 & r & Ef & Ha).
-        assert (Hfr2 : frames (ms x2) = mkframe m false :: f0 :: r) by (rewrite F2, Ef; reflexivity).
+        assert (Hfr2 : frames (ms x2) = mkframe m false false :: f0 :: r) by (rewrite F2, Ef; reflexivity).
         unfold do_step, mstep. unfold step. rewrite (gg_dead _ _ G2), Hfr2. cbn [f_body fst snd bind_s].
         change (load_frame (set_frames (ms x2) (f0 :: r))) with (popped (ms x2) (f0 :: r)).
         set (x3 := with_ms x2 (popped (ms x2) (f0 :: r))).
@@ -2128,8 +1478,8 @@ Section Refine.
         assert (G3 : GoodG x3 sx2).
         { constructor; simpl.
           - rewrite Hst3. apply step_inv. apply (gg_inv _ _ G2).
-          - apply (rel_same (ms x2)); auto; [intros j; apply (is_loading_popped (ms x2) (mkframe m false) (f0 :: r) j Hfr2 eq_refl)|apply (gg_rel _ _ G2)].
-          - apply (fls_popped (ms x2) (mkframe m false)); auto. apply (gg_fls _ _ G2).
+          - apply (rel_same (ms x2)); auto; [intros j; apply (is_loading_popped (ms x2) (mkframe m false false) (f0 :: r) j Hfr2 eq_refl)|apply (gg_rel _ _ G2)].
+          - apply (fls_popped (ms x2) (mkframe m false false)); auto. apply (gg_fls _ _ G2).
           - apply (gg_out _ _ G2).
           - apply (gg_dead _ _ G2).
           - apply (hw_same x); simpl; auto; [rewrite Ef; reflexivity|apply (gg_hw _ _ G)]. }
@@ -2139,8 +1489,8 @@ Section Refine.
         simpl. split; [exact G3|]. split; [simpl; rewrite Ef; reflexivity|]. split; [exact Hh2|]. split; [exact Hi2|].
         split; [exact E03|]. apply (envrel_ext (ms x)); auto.
       + (* an exception left the body: the frame of the call is gone with the others *)
-        destruct Hb as (fc & hs & his & A1 & A2 & A3 & A4 & A5 & A6 & A7 & A8).
-        exists fc, hs, his. split; [exact A1|]. split; [exact A2|]. split; [exact A3|]. split; [exact A4|].
+        destruct Hb as (fc & hs & his & A1 & A0 & A2 & A3 & A4 & A5 & A6 & A7 & A8).
+        exists fc, hs, his. split; [exact A1|]. split; [exact A0|]. split; [exact A2|]. split; [exact A3|]. split; [exact A4|].
         split.
         * rewrite A5. apply keep_bottom_cons. apply (hw_top_le x fc hs (gg_hw _ _ G)). exact A1.
         * split; [exact A6|]. split; [|exact A8].
@@ -2168,7 +1518,7 @@ Section Refine.
   Lemma simG_try fuel x sx env senv body :
     IHsimG fuel -> GoodG x sx -> envrel (ms x) env senv ->
     SimG x (RT (S fuel) (TkExec1 (STry body) env) x)
-           (ST (S fuel) (curp x) (List.length (frames (ms x))) (SkExec1 (STry body) senv) sx).
+           (ST (S fuel) (curp x) (fiber_depth (frames (ms x))) (SkExec1 (STry body) senv) sx).
   Proof.
     intros IH G He. pose proof (gg_inv _ _ G) as I. pose proof (gg_rel _ _ G) as R.
     cbn [run_task srun_task].
@@ -2191,10 +1541,9 @@ Section Refine.
     pose proof (IH (TkExec body ([] :: env)) (SkExec body ([] :: senv)) x1 sx G1) as Hb.
     change (curp x1) with (curp x) in Hb. change (frames (ms x1)) with (frames (ms x)) in Hb.
     specialize (Hb (conj eq_refl (Forall2_cons _ _ (Forall2_nil _) He))).
-    pose proof (sbal fuel (curp x) (List.length (frames (ms x))) (SkExec body ([] :: senv)) sx) as Hsb.
-    fold L in Hb, Hsb.
+    pose proof (sbal fuel (curp x) (fiber_depth (frames (ms x))) (SkExec body ([] :: senv)) sx) as Hsb.
     destruct (RT fuel (TkExec body ([] :: env)) x1) as [env2 x2|h2 e2 x2|e2 x2| |w2];
-      destruct (ST fuel (curp x) L (SkExec body ([] :: senv)) sx) as [senv2 sx2|se2 sx2| |w2'];
+      destruct (ST fuel (curp x) (fiber_depth (frames (ms x))) (SkExec body ([] :: senv)) sx) as [senv2 sx2|se2 sx2|sf2 sxf2| |w2'];
       simpl in Hb; try contradiction; auto.
     - (* the body finished: PopExcHandler *)
       destruct Hb as (G2 & F2 & Hh2 & Hi2 & E2 & _).
@@ -2217,7 +1566,7 @@ Section Refine.
       + apply (envrel_ext (ms x)); auto.
         eapply ext_trans; [apply (ext_same (ms x) st1); reflexivity|]. eapply ext_trans; [exact E2|apply ext_same; reflexivity].
     - (* an exception reached this handler: the catch clause *)
-      destruct Hb as (fc & hs & his & A1 & A2 & A3 & A4 & A5 & A6 & A7 & A8).
+      destruct Hb as (fc & hs & his & A1 & A0 & A2 & A3 & A4 & A5 & A6 & A7 & A8).
       change (handlers (ms x1)) with (L :: handlers (ms x)) in A1. change (hids x1) with (nexth x :: hids x) in A2.
       inversion A1; subst fc hs. inversion A2; subst h2 his.
       rewrite Nat.eqb_refl.
@@ -2251,7 +1600,12 @@ Section Refine.
       rewrite (excrel_msg _ _ _ A8).
       apply simG_emit; auto. apply (envrel_ext (ms x)); auto. apply (sm_ext _ _ S2).
     - (* dead inside a try block: impossible, a handler is installed *)
-      destruct Hb as (A0 & _). discriminate.
+      destruct Hb as (A0 & _). exfalso. unfold usable in A0. change (handlers (ms x1)) with (L :: handlers (ms x)) in A0.
+      change (base_len (ms x1)) with (base_len (ms x)) in A0. apply Nat.ltb_ge in A0. unfold base_len in A0. fold L in A0.
+      destruct (active_frame _ I (gg_dead _ _ G)) as (f0 & r0 & Ef0 & _).
+      assert (Hd1 : 1 <= fiber_depth (frames (ms x))) by (rewrite Ef0; simpl; destruct (f_base f0); lia).
+      assert (HL1 : 1 <= L) by (unfold L; rewrite Ef0; simpl; lia).
+      change (frames st1) with (frames (ms x)) in A0. fold L in A0. lia.
   Qed.
 
   (* ---- the states in which a failing import raises ---- *)
@@ -2351,7 +1705,7 @@ Section Refine.
   Qed.
 
   Lemma load_and_run_limit st0 P s b :
-    alookup (reg st0) P = None -> ld P = LoadOk s -> cp P s = CompOk b -> List.length (frames st0) = fm ->
+    alookup (reg st0) P = None -> ld P = LoadOk s -> cp P s = CompOk b -> fiber_depth (frames st0) = fm ->
     frames st0 <> [] -> (forall f, In f (frames st0) -> f_mod f < List.length (heap st0)) ->
     (forall h, In h (handlers st0) -> 1 <= h) ->
     load_and_run nat (list top) ld cp B fm true st0 P
@@ -2360,10 +1714,11 @@ Section Refine.
     intros Hr Hl Hc Hfm Hne Hfr Hh. unfold load_and_run. rewrite Hl, Hc.
     rewrite get_or_create_none by (simpl; exact Hr).
     unfold call_closure.
-    change (List.length (frames (created (log_load P st0) P))) with (List.length (frames st0)).
+    change (fiber_depth (frames (created (log_load P st0) P))) with (fiber_depth (frames st0)).
     rewrite Hfm, Nat.eqb_refl.
     unfold raise. change (handlers (created (log_load P st0) P)) with (handlers st0).
     destruct (handlers st0) as [|h hs] eqn:Eh; [reflexivity|].
+    destruct (Nat.ltb (base_len (created (log_load P st0) P)) h); [|reflexivity].
     cbn [negb orb].
     set (s' := load_frame (set_handlers (set_frames (created (log_load P st0) P) (keep_bottom h (frames (created (log_load P st0) P)))) hs)).
     assert (Ha : Nat.eqb (active s') (List.length (heap (log_load P st0))) = false).
@@ -2379,7 +1734,7 @@ Section Refine.
   Lemma simG_import fuel x sx env senv p a :
     IHsimG fuel -> GoodG x sx -> envrel (ms x) env senv ->
     SimG x (RT (S fuel) (TkExec1 (SImport p a) env) x)
-           (ST (S fuel) (curp x) (List.length (frames (ms x))) (SkExec1 (SImport p a) senv) sx).
+           (ST (S fuel) (curp x) (fiber_depth (frames (ms x))) (SkExec1 (SImport p a) senv) sx).
   Proof.
     intros IH G He. cbn [run_task srun_task].
     set (P := mod_path (N.to_nat p)). set (nm := import_alias p a).
@@ -2389,10 +1744,10 @@ Section Refine.
               SimG x
                 (bind_s (DS x (EStartImport P))
                    (fun x1 o => match o with
-                      | OModule id => bind_alias prog cm B fm true true env x1 nm (VMod id)
+                      | OModule id => bind_alias prog cm B fm true true true env x1 nm (VMod id)
                       | OEntered id body =>
                         match RT fuel (TkTops body (src_of_mod x1 id)) x1 with
-                        | RNormal _ x2 => bind_s (DS x2 EReturn) (fun x3 _ => bind_alias prog cm B fm true true env x3 nm (VMod id))
+                        | RNormal _ x2 => bind_s (DS x2 EReturn) (fun x3 _ => bind_alias prog cm B fm true true true env x3 nm (VMod id))
                         | r => r
                         end
                       | _ => RIll "import"
@@ -2403,10 +1758,10 @@ Section Refine.
                  | DSame => sbind (curp x) senv x1 nm (SMod P)
                  | DRaise e => QRaised (SXErr e) x1
                  | DRun body =>
-                   if Nat.eqb (List.length (frames (ms x))) fm then QRaised (SXErr (mkerr KIndex [stack_overflow_msg])) x1
+                   if Nat.eqb (fiber_depth (frames (ms x))) fm then QRaised (SXErr (mkerr KIndex [stack_overflow_msg])) x1
                    else
                      let x1' := mksx (s_begin (B ++ C) (ss x1) P) (sout x1) (sfl x1) in
-                     match ST fuel P (S (List.length (frames (ms x)))) (SkTops body (N.to_nat p)) x1' with
+                     match ST fuel P (S (fiber_depth (frames (ms x)))) (SkTops body (N.to_nat p)) x1' with
                      | QNormal _ x2 => sbind (curp x) senv (mksx (spec_finish (ss x2) P true) (sout x2) (sfl x2)) nm (SMod P)
                      | QRaised e x2 => QRaised e (mksx (spec_finish (ss x2) P false) (sout x2) (sfl x2))
                      | r => r
@@ -2435,7 +1790,7 @@ Section Refine.
       2:{ apply (Hraise_l (XErr (mkerr KImport (comp_head :: map (append comp_indent) msgs))) (SXErr (mkerr KImport [comp_head]))); [|simpl; auto].
           rewrite Hstep. unfold load_and_run. rewrite El, Ec. reflexivity. }
       subst b'.
-      destruct (Nat.eqb (List.length (frames (ms x))) fm) eqn:Efm.
+      destruct (Nat.eqb (fiber_depth (frames (ms x))) fm) eqn:Efm.
       { (* frame limit *)
         assert (Hlim : load_and_run nat (list top) ld cp B fm true st0 P
                        = raise (list top) (created (log_load P st0) P) (XErr (mkerr KIndex [stack_overflow_msg]))).
@@ -2460,12 +1815,12 @@ Section Refine.
       (* the body is entered *)
       rewrite get_or_create_none by (simpl; exact Pn).
       unfold call_closure.
-      change (List.length (frames (created (log_load P st0) P))) with (List.length (frames st0)). rewrite Pf, Efm.
+      change (fiber_depth (frames (created (log_load P st0) P))) with (fiber_depth (frames st0)). rewrite Pf, Efm.
       set (id := List.length (heap (log_load P st0))).
       cbn [fst snd negb orb].
-      change (active (log_ran id (load_frame (set_frames (created (log_load P st0) P) (mkframe id true :: frames (created (log_load P st0) P)))))) with id.
+      change (active (log_ran id (load_frame (set_frames (created (log_load P st0) P) (mkframe id true false :: frames (created (log_load P st0) P)))))) with id.
       rewrite Nat.eqb_refl.
-      change (init_builtins B id (log_ran id (load_frame (set_frames (created (log_load P st0) P) (mkframe id true :: frames (created (log_load P st0) P))))))
+      change (init_builtins B id (log_ran id (load_frame (set_frames (created (log_load P st0) P) (mkframe id true false :: frames (created (log_load P st0) P))))))
         with (entered st0 P).
       cbn [dsr bind_s]. cbn [ss sout sfl].
       set (x1 := with_ms x (entered st0 P)).
@@ -2493,15 +1848,15 @@ Section Refine.
       change id with (List.length (heap st0)). rewrite Hsrc.
       pose proof (IH (TkTops b (N.to_nat p)) (SkTops b (N.to_nat p)) x1 sx1 G1 (conj eq_refl eq_refl)) as Hb.
       rewrite Hcur1 in Hb.
-      assert (Hfr1 : frames (ms x1) = mkframe (List.length (heap st0)) true :: frames (ms x)) by (simpl; rewrite Pf; reflexivity).
-      rewrite Hfr1 in Hb. simpl List.length in Hb.
-      pose proof (sbal fuel P (S (List.length (frames (ms x)))) (SkTops b (N.to_nat p)) sx1) as Hsb.
+      assert (Hfr1 : frames (ms x1) = mkframe (List.length (heap st0)) true false :: frames (ms x)) by (simpl; rewrite Pf; reflexivity).
+      rewrite Hfr1 in Hb. cbn [fiber_depth f_base] in Hb.
+      pose proof (sbal fuel P (S (fiber_depth (frames (ms x)))) (SkTops b (N.to_nat p)) sx1) as Hsb.
       destruct (RT fuel (TkTops b (N.to_nat p)) x1) as [env2 x2|h2 e2 x2|e2 x2| |w2];
-        destruct (ST fuel P (S (List.length (frames (ms x)))) (SkTops b (N.to_nat p)) sx1) as [senv2 sx2|se2 sx2| |w2']; simpl in Hb; try contradiction; auto.
+        destruct (ST fuel P (S (fiber_depth (frames (ms x)))) (SkTops b (N.to_nat p)) sx1) as [senv2 sx2|se2 sx2|sf2 sxf2| |w2']; simpl in Hb; try contradiction; auto.
       - (* the body returned: FinishImport *)
         destruct Hb as (G2 & F2 & Hh2 & Hi2 & E2 & _).
         destruct (active_frame _ I (gg_dead _ _ G)) as (f & r & Ef & Ha).
-        assert (Hfr2 : frames (ms x2) = mkframe (List.length (heap st0)) true :: f :: r) by (rewrite F2, Pf, Ef; reflexivity).
+        assert (Hfr2 : frames (ms x2) = mkframe (List.length (heap st0)) true false :: f :: r) by (rewrite F2, Pf, Ef; reflexivity).
         unfold do_step, mstep. unfold step. rewrite (gg_dead _ _ G2), Hfr2. cbn [f_body f_mod fst snd bind_s].
         change (log_yield (m_path (getmod (ms x2) (List.length (heap st0)))) (List.length (heap st0))
                   (set_imported (load_frame (set_frames (ms x2) (f :: r))) (List.length (heap st0))))
@@ -2515,7 +1870,7 @@ Section Refine.
         { destruct (active_frame _ (gg_inv _ _ G2) (gg_dead _ _ G2)) as (f2 & r2 & Ef2 & Ha2).
           rewrite Hfr2 in Ef2. inversion Ef2; subst. exact Ha2. }
         rewrite Hact2, Hp2 in Hsm2.
-        destruct (rel_finish (ms x2) (ss sx2) (mkframe idn true) (f :: r) P sm2 (gg_inv _ _ G2) (gg_rel _ _ G2)
+        destruct (rel_finish (ms x2) (ss sx2) (mkframe idn true false) (f :: r) P sm2 (gg_inv _ _ G2) (gg_rel _ _ G2)
                              (FLS_FL _ (gg_fls _ _ G2)) Hfr2 eq_refl Hp2 Hsm2) as (R3 & _ & E3 & S3).
         cbn [f_mod] in R3, E3, S3.
         set (x3 := with_ms x2 (finished (ms x2) (f :: r) idn)).
@@ -2527,7 +1882,7 @@ Section Refine.
         assert (G3 : GoodG x3 sx3).
         { constructor; simpl; auto.
           - rewrite Hst3. apply step_inv. apply (gg_inv _ _ G2).
-          - apply (fls_finished (ms x2) (mkframe idn true) (f :: r) Hfr2 (gg_fls _ _ G2)).
+          - apply (fls_finished (ms x2) (mkframe idn true false) (f :: r) Hfr2 (gg_fls _ _ G2)).
           - apply (gg_out _ _ G2).
           - apply (gg_dead _ _ G2).
           - apply (hw_same x); simpl; auto; [rewrite Ef; reflexivity|apply (gg_hw _ _ G)]. }
@@ -2539,12 +1894,15 @@ Section Refine.
         rewrite Hp3 in Hba. rewrite (curp_sameG x sx x3 sx3 G G3 S03) in Hba.
         apply Hba. exact S3.
       - (* an exception left the body: the Spec forgets the module, the Mechanism already has *)
-        destruct Hb as (fc & hs & his & A1 & A2 & A3 & A4 & A5 & A6 & A7 & A8).
+        destruct Hb as (fc & hs & his & A1 & A0 & A2 & A3 & A4 & A5 & A6 & A7 & A8).
         change (handlers (ms x1)) with (handlers st0) in A1. rewrite Phd in A1. change (hids x1) with (hids x) in A2.
         pose proof (hw_top_le x fc hs (gg_hw _ _ G) A1) as Hfc.
-        change (frames (ms x1)) with (mkframe (List.length (heap st0)) true :: frames st0) in A5. rewrite Pf in A5.
+        assert (A0' : base_len (ms x) < fc).
+        { unfold base_len in *. change (frames (entered st0 P)) with (mkframe (List.length (heap st0)) true false :: frames st0) in A0.
+          rewrite Pf in A0. simpl in A0. exact A0. }
+        change (frames (ms x1)) with (mkframe (List.length (heap st0)) true false :: frames st0) in A5. rewrite Pf in A5.
         rewrite keep_bottom_cons in A5 by exact Hfc.
-        exists fc, hs, his. split; [exact A1|]. split; [exact A2|]. split; [exact A3|]. split; [exact A4|]. split; [exact A5|].
+        exists fc, hs, his. split; [exact A1|]. split; [exact A0'|]. split; [exact A2|]. split; [exact A3|]. split; [exact A4|]. split; [exact A5|].
         split; [|split; [eapply ext_trans; [exact E1|exact A7]|exact A8]].
         destruct A6 as [a0 b0 c0 d0 e0 f0]. constructor; auto. cbn [ss].
         simpl in Hsb.
@@ -2574,8 +1932,12 @@ Section Refine.
             assert (is_loading (ms x) i = true) by (apply is_loading_true; exists g; auto). congruence.
           * apply (rz_none _ _ b0 _ Hq).
       - (* dead inside the body *)
-        destruct Hb as (A0 & Ho & Hl & Hx). change (handlers (ms x1)) with (handlers st0) in A0. rewrite Phd in A0.
-        simpl. split; [exact A0|]. split; [exact Ho|]. split; [rewrite spec_finish_loads; exact Hl|exact Hx]. }
+        destruct Hb as (A0 & Ho & Hl & Hx).
+        assert (A0' : usable (ms x) = false).
+        { unfold usable, base_len in *. change (handlers (entered st0 P)) with (handlers st0) in A0.
+          change (frames (entered st0 P)) with (mkframe (List.length (heap st0)) true false :: frames st0) in A0.
+          rewrite Phd, Pf in A0. simpl in A0. exact A0. }
+        simpl. split; [exact A0'|]. split; [exact Ho|]. split; [rewrite spec_finish_loads; exact Hl|exact Hx]. }
     (* the registry hit *)
     unfold do_step at 1. unfold mstep at 1. unfold step at 1. fold (DS x (EStartImport P)) in Hload.
     destruct (alookup (reg (ms x)) P) as [id|] eqn:Er.
@@ -2608,27 +1970,27 @@ Section Refine.
             - exfalso. destruct (r_none _ _ R _ E) as [H|(i & A1 & _ & A3)]; [congruence|].
               rewrite Er in A1. inversion A1; subst i. congruence. }
           destruct Hsm as (sm & Hsm & Hst). unfold s_import, spec_import. rewrite Hsm, Hst. rewrite sx_eta.
-          fold (stepP (ms x) (EStartImport P)). fold (mstep prog cm B fm true true (ms x) (EStartImport P)).
+          fold (stepP (ms x) (EStartImport P)). fold (mstep prog cm B fm true true true (ms x) (EStartImport P)).
           fold (DS x (EStartImport P)).
           apply (sim_raise_here x x sx (EStartImport P) (XErr (mkerr KImport [cyc_msg P]))); auto.
           -- apply Same_refl.
-          -- unfold step. rewrite (gg_dead _ _ G). unfold start_import. rewrite Er, Ei, El. reflexivity.
+          -- unfold step. rewrite (gg_dead _ _ G). unfold start_import; cbv beta iota delta [is_loading_seen]. rewrite Er, Ei, El. reflexivity.
           -- simpl; auto.
         * (* the leftover of a failed import *)
           assert (Hsn : alookup (s_mods (ss sx)) P = None).
           { destruct (alookup (s_mods (ss sx)) P) as [sm|] eqn:E; auto. exfalso.
             destruct (r_some _ _ R _ _ E) as (i & A1 & A2 & A3 & _). rewrite Er in A1. inversion A1; subst i.
             destruct (s_status sm); [rewrite A3 in El; [discriminate|reflexivity]|congruence]. }
-          fold (stepP (ms x) (EStartImport P)). fold (mstep prog cm B fm true true (ms x) (EStartImport P)).
+          fold (stepP (ms x) (EStartImport P)). fold (mstep prog cm B fm true true true (ms x) (EStartImport P)).
           fold (DS x (EStartImport P)).
           apply (Hload (set_reg (ms x) (aremove (reg (ms x)) P))); auto.
           -- apply (prep_leftover _ _ id); auto.
           -- apply (unregister_inv B (ms x) P id); auto.
-          -- unfold step. rewrite (gg_dead _ _ G). unfold start_import. rewrite Er, Ei, El. reflexivity.
+          -- unfold step. rewrite (gg_dead _ _ G). unfold start_import; cbv beta iota delta [is_loading_seen]. rewrite Er, Ei, El. reflexivity.
     - assert (Hsn : alookup (s_mods (ss sx)) P = None).
       { destruct (alookup (s_mods (ss sx)) P) as [sm|] eqn:E; auto. exfalso.
         destruct (r_some _ _ R _ _ E) as (i & A1 & _). congruence. }
-      fold (stepP (ms x) (EStartImport P)). fold (mstep prog cm B fm true true (ms x) (EStartImport P)).
+      fold (stepP (ms x) (EStartImport P)). fold (mstep prog cm B fm true true true (ms x) (EStartImport P)).
       fold (DS x (EStartImport P)).
       apply (Hload (ms x)); auto.
       + apply prep_absent; auto.
@@ -2638,18 +2000,107 @@ Section Refine.
   Lemma simG_refl_normal x sx env senv : GoodG x sx -> envrel (ms x) env senv -> SimG x (RNormal env x) (QNormal senv sx).
   Proof. intros G E. simpl. split; auto. split; auto. split; auto. split; auto. split; [apply ext_refl|exact E]. Qed.
 
+  (* ---- fibers ---- *)
+  Definition pushedf (st : state) (m : nat) : state := load_frame (set_frames st (mkframe m false true :: frames st)).
+
+  Lemma fls_pushedf st m :
+    FLS st -> alookup (reg st) (pth st m) = Some m -> live st m -> FLS (pushedf st m).
+  Proof.
+    intros F Hr Hl. unfold FLS. change (frames (pushedf st m)) with (mkframe m false true :: frames st). simpl. split.
+    - split; [exact Hr|]. destruct Hl as [Hl|Hl]; [left; exact Hl|right; exact Hl].
+    - apply (FLS_list_same st); auto.
+  Qed.
+
+  Lemma filter_le_all (l : list nat) n : Forall (fun h => n >= h) l -> filter (fun h => Nat.leb h n) l = l.
+  Proof.
+    induction 1 as [|h l Hh _ IH]; simpl; auto.
+    assert (E : Nat.leb h n = true) by (apply Nat.leb_le; unfold ge in Hh; lia). rewrite E, IH. reflexivity.
+  Qed.
+
+  Lemma simG_fiber fuel x sx env senv k f :
+    IHsimG fuel -> GoodG x sx -> envrel (ms x) env senv ->
+    SimG x (RT (S fuel) (TkFiber k f env) x) (ST (S fuel) (curp x) (fiber_depth (frames (ms x))) (SkFiber k f senv) sx).
+  Proof.
+    intros IH G He. pose proof (gg_inv _ _ G) as I. pose proof (Same_refl x) as Sx.
+    destruct k as [|k']; cbn [run_task srun_task].
+    - apply simG_get; auto. intros w _ Hok.
+      destruct (cur_entryG x sx G) as (Hr & Hl & _).
+      apply (IH (TkCall env w) (SkCall senv (tv (ms x) w)) x sx G).
+      split; [exact He|]. split; [reflexivity|]. intros m key ->. simpl in Hok. subst m. auto.
+    - apply simG_get; auto. intros v _ _.
+      destruct (cur_entryG x sx G) as (Hr & Hl & _).
+      set (a := active (ms x)) in *.
+      assert (Hlt : Nat.ltb a (List.length (heap (ms x))) = true) by (apply Nat.ltb_lt; apply (i_act_lt _ _ I)).
+      unfold do_step at 1. unfold mstep at 1. unfold step at 1. rewrite (gg_dead _ _ G). fold a. rewrite Hlt.
+      cbn [bind_s fst snd].
+      change (load_frame (set_frames (ms x) (mkframe a false true :: frames (ms x)))) with (pushedf (ms x) a).
+      set (x2 := with_ms x (pushedf (ms x) a)).
+      assert (Hst2 : pushedf (ms x) a = fst (stepP (ms x) (EFiberCall a))).
+      { unfold step. rewrite (gg_dead _ _ G), Hlt. reflexivity. }
+      assert (G2 : GoodG x2 sx).
+      { apply goodG_with; auto.
+        - rewrite Hst2. apply step_inv; exact I.
+        - apply (rel_same (ms x)); auto. apply (gg_rel _ _ G).
+        - apply fls_pushedf; auto. apply (gg_fls _ _ G).
+        - apply (gg_dead _ _ G).
+        - simpl. lia. }
+      pose proof (IH (TkFiber k' f env) (SkFiber k' f senv) x2 sx G2) as Hb.
+      change (curp x2) with (curp x) in Hb. change (fiber_depth (frames (ms x2))) with 1 in Hb.
+      specialize (Hb (conj eq_refl (conj eq_refl (envrel_ext _ _ _ _ I (ext_same (ms x) (pushedf (ms x) a) eq_refl eq_refl) He)))).
+      destruct (RT fuel (TkFiber k' f env) x2) as [env3 x3|h3 e3 x3|e3 x3| |w3];
+        destruct (ST fuel (curp x) 1 (SkFiber k' f senv) sx) as [senv3 sx3|se3 sx3|sf3 sxf3| |w3'];
+        simpl in Hb; try contradiction; auto.
+      + (* the fiber finished *)
+        destruct Hb as (G3 & F3 & Hh3 & Hi3 & E3 & _).
+        change (frames (ms x2)) with (mkframe a false true :: frames (ms x)) in F3.
+        change (handlers (ms x2)) with (handlers (ms x)) in Hh3. change (hids x2) with (hids x) in Hi3.
+        destruct (active_frame _ I (gg_dead _ _ G)) as (f0 & r & Ef & Ha).
+        assert (Hfr3 : frames (ms x3) = mkframe a false true :: f0 :: r) by (rewrite F3, Ef; reflexivity).
+        unfold do_step, mstep. unfold step. rewrite (gg_dead _ _ G3), Hfr3. cbn [f_body f_base fst snd bind_s].
+        assert (Hfil : filter (fun h => Nat.leb h (List.length (f0 :: r))) (handlers (ms x3)) = handlers (ms x)).
+        { rewrite Hh3. apply filter_le_all. destruct (gg_hw _ _ G) as [_ Hs]. rewrite Ef in Hs.
+          inversion Hs; subst; auto. }
+        rewrite Hfil.
+        set (st4 := set_handlers (load_frame (set_frames (ms x3) (f0 :: r))) (handlers (ms x))).
+        set (x4 := with_ms x3 st4).
+        assert (Hst4 : st4 = fst (stepP (ms x3) EReturn)).
+        { unfold step. rewrite (gg_dead _ _ G3), Hfr3. cbn [f_body f_base fst]. rewrite Hfil. reflexivity. }
+        assert (G4 : GoodG x4 sx3).
+        { constructor; simpl.
+          - rewrite Hst4. apply step_inv. apply (gg_inv _ _ G3).
+          - apply (rel_same (ms x3)); auto; [intros j; apply (is_loading_popped (ms x3) (mkframe a false true) (f0 :: r) j Hfr3 eq_refl)|apply (gg_rel _ _ G3)].
+          - apply (FLS_list_same (popped (ms x3) (f0 :: r))); auto.
+            apply (fls_popped (ms x3) (mkframe a false true)); auto. apply (gg_fls _ _ G3).
+          - apply (gg_out _ _ G3).
+          - apply (gg_dead _ _ G3).
+          - apply (hw_same x); simpl; auto; [rewrite Ef; reflexivity|apply (gg_hw _ _ G)]. }
+        assert (E04 : ext (ms x) (ms x4)).
+        { eapply ext_trans; [apply (ext_same (ms x) (pushedf (ms x) a)); reflexivity|].
+          eapply ext_trans; [exact E3|apply ext_same; reflexivity]. }
+        simpl. split; [exact G4|]. split; [simpl; rewrite Ef; reflexivity|]. split; [reflexivity|]. split; [exact Hi3|].
+        split; [exact E04|]. apply (envrel_ext (ms x)); auto.
+      + (* an exception cannot leave a fiber through a handler of the waiting fiber *)
+        destruct Hb as (fc & hs & his & A1 & A0 & _). exfalso.
+        change (handlers (ms x2)) with (handlers (ms x)) in A1.
+        pose proof (hw_top_le x fc hs (gg_hw _ _ G) A1) as Hfc.
+        unfold base_len in A0. change (frames (ms x2)) with (mkframe a false true :: frames (ms x)) in A0.
+        simpl in A0. lia.
+      + (* it ends the run *)
+        destruct Hb as (_ & A1). exact A1.
+  Qed.
+
   (* ---- the main simulation, all programs ---- *)
   Lemma simG_task : forall fuel, IHsimG fuel.
   Proof.
     induction fuel as [|fuel IH]; intros tk stk x sx G Ht.
     { simpl. exact Logic.I. }
     pose proof (gg_inv _ _ G) as I. pose proof (Same_refl x) as Sx.
-    destruct tk as [l env|s env|env w|ts src]; destruct stk as [l' senv|s' senv|senv sw|ts' src']; simpl in Ht; try contradiction.
+    destruct tk as [l env|s env|env w|k f env|ts src]; destruct stk as [l' senv|s' senv|senv sw|k1 f1 senv|ts' src']; simpl in Ht; try contradiction.
     - (* a statement list *)
       destruct Ht as [<- He]. destruct l as [|s rest]; [apply simG_refl_normal; auto|].
-      refine (simG_seq x (RT fuel (TkExec1 s env) x) (ST fuel (curp x) (List.length (frames (ms x))) (SkExec1 s senv) sx)
+      refine (simG_seq x (RT fuel (TkExec1 s env) x) (ST fuel (curp x) (fiber_depth (frames (ms x))) (SkExec1 s senv) sx)
                        (fun env' x' => RT fuel (TkExec rest env') x')
-                       (fun senv' sx' => ST fuel (curp x) (List.length (frames (ms x))) (SkExec rest senv') sx') _ _).
+                       (fun senv' sx' => ST fuel (curp x) (fiber_depth (frames (ms x))) (SkExec rest senv') sx') _ _).
       + apply IH; auto. simpl; auto.
       + intros env' x' senv' sx' G' S' V'.
         pose proof (IH (TkExec rest env') (SkExec rest senv') x' sx' G' (conj eq_refl V')) as H.
@@ -2676,7 +2127,7 @@ Section Refine.
       + apply simG_resolve; auto. intros w Hm _. destruct w; try reflexivity.
         apply (simG_getattr x x sx id (fn_name f) "invoke"
                  (fun x2 u => RT fuel (TkCall env u) x2)
-                 (fun u => ST fuel (curp x) (List.length (frames (ms x))) (SkCall senv u) sx)); auto.
+                 (fun u => ST fuel (curp x) (fiber_depth (frames (ms x))) (SkCall senv u) sx)); auto.
         intros u _ Hok.
         apply (IH (TkCall env u) (SkCall senv (tv (ms x) u)) x sx G).
         split; [exact He|]. split; [reflexivity|]. intros m key ->. simpl in Hok. subst m.
@@ -2692,42 +2143,63 @@ Section Refine.
         * apply simG_builtin3; auto.
         * apply simG_get; auto. intros w _ _. apply simG_get; auto. intros w2 _ _. apply simG_emit; auto.
         * apply simG_get; auto. intros w _ _. rewrite display_tv. apply simG_emit; auto.
+      + apply (IH (TkFiber (N.to_nat d) f env) (SkFiber (N.to_nat d) f senv) x sx G). split; [reflexivity|]. split; [reflexivity|exact He].
       + apply (simG_try fuel x sx env senv body IH G He).
-      + refine (simG_seq x (RT fuel (TkExec body ([] :: env)) x) (ST fuel (curp x) (List.length (frames (ms x))) (SkExec body ([] :: senv)) sx)
+      + refine (simG_seq x (RT fuel (TkExec body ([] :: env)) x) (ST fuel (curp x) (fiber_depth (frames (ms x))) (SkExec body ([] :: senv)) sx)
                          (fun _ x1 => RNormal env x1) (fun _ sx1 => QNormal senv sx1) _ _).
         * apply IH; auto. simpl. split; [reflexivity|]. constructor; [constructor|exact He].
         * intros env' x' senv' sx' G' [S1 S2 S3 S4] _. simpl. split; [exact G'|]. split; [exact S1|]. split; [exact S2|].
           split; [exact S3|]. split; [exact S4|]. apply (envrel_ext (ms x)); auto.
     - destruct Ht as (He & -> & Hw). apply simG_call; auto.
+    - destruct Ht as (<- & <- & He). apply simG_fiber; auto.
     - destruct Ht as [<- <-]. destruct ts as [|t rest]; [apply simG_refl_normal; auto; constructor|].
       cbn [run_task srun_task].
       assert (Hk : forall env' x' senv' sx', GoodG x' sx' -> Same x x' -> envrel (ms x') env' senv' ->
-                   SimG x (RT fuel (TkTops rest src) x') (ST fuel (curp x) (List.length (frames (ms x))) (SkTops rest src) sx')).
+                   SimG x (RT fuel (TkTops rest src) x') (ST fuel (curp x) (fiber_depth (frames (ms x))) (SkTops rest src) sx')).
       { intros env' x' senv' sx' G' S' _.
         pose proof (IH (TkTops rest src) (SkTops rest src) x' sx' G' (conj eq_refl eq_refl)) as H.
         rewrite (curp_sameG x sx x' sx' G G' S'), (sm_frames _ _ S') in H.
         destruct S'. eapply SimG_trans; eauto. }
       destruct t.
-      + refine (simG_seq_var x (RT fuel (TkExec1 s []) x) (ST fuel (curp x) (List.length (frames (ms x))) (SkExec1 s []) sx)
+      + refine (simG_seq_var x (RT fuel (TkExec1 s []) x) (ST fuel (curp x) (fiber_depth (frames (ms x))) (SkExec1 s []) sx)
                              (fun _ x' => RT fuel (TkTops rest src) x')
-                             (fun _ sx' => ST fuel (curp x) (List.length (frames (ms x))) (SkTops rest src) sx') _ Hk).
+                             (fun _ sx' => ST fuel (curp x) (fiber_depth (frames (ms x))) (SkTops rest src) sx') _ Hk).
         apply IH; auto. simpl. split; [reflexivity|constructor].
       + refine (simG_seq_var x (bind_s (DS x (EDefineGlobal (var_name x0) (VNum n))) (fun x1 _ => RNormal [] x1))
                              (QNormal [] (sset (curp x) sx (var_name x0) (SNum n)))
                              (fun _ x' => RT fuel (TkTops rest src) x')
-                             (fun _ sx' => ST fuel (curp x) (List.length (frames (ms x))) (SkTops rest src) sx') _ Hk).
+                             (fun _ sx' => ST fuel (curp x) (fiber_depth (frames (ms x))) (SkTops rest src) sx') _ Hk).
         apply (simG_define x x sx (var_name x0) (VNum n)); auto. exact Logic.I.
       + refine (simG_seq_var x (bind_s (DS x (EDefineGlobal (fn_name f) (VFn (active (ms x)) (fn_key src f)))) (fun x1 _ => RNormal [] x1))
                              (QNormal [] (sset (curp x) sx (fn_name f) (SFn (curp x) (fn_key src f))))
                              (fun _ x' => RT fuel (TkTops rest src) x')
-                             (fun _ sx' => ST fuel (curp x) (List.length (frames (ms x))) (SkTops rest src) sx') _ Hk).
+                             (fun _ sx' => ST fuel (curp x) (fiber_depth (frames (ms x))) (SkTops rest src) sx') _ Hk).
         apply (simG_define x x sx (fn_name f) (VFn (active (ms x)) (fn_key src f))); auto. reflexivity.
   Qed.
 
   Lemma goodG_init : GoodG (mech_init B C) (mksx (spec_init (B ++ C)) [] "").
   Proof.
-    destruct good_init as [a b c d e f]. constructor; [exact a|exact b| |exact d|reflexivity|].
+    assert (Hg : forall id, getmod (ms (mech_init B C)) id = nth id [mkmod main_path false (main_attrs B C)] (empty_mod "")) by reflexivity.
+    constructor.
+    - apply init_inv. intros b Hb. apply main_attrs_have_builtins; auto.
+    - constructor.
+      + reflexivity.
+      + intros p sm Hp.
+        change (alookup [(main_path, mksmod Loading (startup_globals (B ++ C)))] p = Some sm) in Hp. cbn [alookup] in Hp.
+        destruct (String.eqb main_path p) eqn:E; [|discriminate].
+        inversion Hp; subst sm. apply String.eqb_eq in E; subst p.
+        exists 0. split; [reflexivity|]. split; [reflexivity|]. split; [reflexivity|].
+        split.
+        * intros x. unfold attrs_of. rewrite Hg. cbn [nth m_attrs s_globals]. apply alookup_builtin_attrs.
+        * intros x v Hx. unfold attrs_of in Hx. rewrite Hg in Hx. cbn [nth m_attrs] in Hx.
+          destruct (builtin_attrs_values _ _ _ Hx) as (b & ->). exact Logic.I.
+      + intros p Hp.
+        change (alookup [(main_path, mksmod Loading (startup_globals (B ++ C)))] p = None) in Hp. cbn [alookup] in Hp.
+        left. change (alookup [(main_path, 0)] p = None). cbn [alookup].
+        destruct (String.eqb main_path p); [discriminate|reflexivity].
     - unfold FLS. simpl. split; [|exact Logic.I]. split; [reflexivity|right; reflexivity].
+    - reflexivity.
+    - reflexivity.
     - split; [reflexivity|]. simpl. constructor; constructor.
   Qed.
 
@@ -2735,16 +2207,16 @@ Section Refine.
      uncompilable), any import graph, imports at top level / in functions / in try blocks, caught and uncaught
      failures, re-imports after failures, the frame limit - and every fuel, the Mechanism's run shows exactly what
      the Spec's run shows: the printed lines, the loader calls, the outcome. *)
-  Theorem mech_refines_spec fuel : mech_obs prog cm B fm true true fuel C = spec_obs prog (B ++ C) fm fuel.
+  Theorem mech_refines_spec fuel : mech_obs prog cm B fm true true true fuel C = spec_obs prog (B ++ C) fm fuel.
   Proof.
     unfold mech_obs, spec_obs. destruct prog as [|[ts| |k] rest] eqn:Ep; auto.
     rewrite <- Ep.
     pose proof (simG_task fuel (TkTops ts 0) (SkTops ts 0) _ _ goodG_init (conj eq_refl eq_refl)) as H.
     unfold exec_tops, sexec_tops.
     change (curp (mech_init B C)) with main_path in H.
-    change (List.length (frames (ms (mech_init B C)))) with 1 in H.
+    change (fiber_depth (frames (ms (mech_init B C)))) with 1 in H.
     destruct (RT fuel (TkTops ts 0) (mech_init B C)) as [env' x'|h e x'|e x'| |w];
-      destruct (ST fuel main_path 1 (SkTops ts 0) (mksx (spec_init (B ++ C)) [] "")) as [senv' sx'|se sx'| |w']; simpl in H; try contradiction; auto.
+      destruct (ST fuel main_path 1 (SkTops ts 0) (mksx (spec_init (B ++ C)) [] "")) as [senv' sx'|se sx'|sf sxf| |w']; simpl in H; try contradiction; auto.
     - destruct H as (G & _). rewrite (gg_out _ _ G), (r_loads _ _ (gg_rel _ _ G)). reflexivity.
     - (* unwound past the script: impossible, no handler at the start *)
       destruct H as (fc & hs & his & A1 & _). discriminate.
@@ -2752,8 +2224,17 @@ Section Refine.
       + destruct Hx as [Hk Hm]. unfold dead_kind, dead_messages. simpl. rewrite Hk, Hm. reflexivity.
       + destruct Hx as (-> & Hn1 & Hn2). unfold dead_kind, dead_messages. simpl. rewrite display_tv.
         rewrite (display_closed (init_state []) (ms x') v Hn1). reflexivity.
+    - destruct H as (Ho & Hl & Hx). rewrite Ho, Hl. destruct e as [er|v], sf as [er'|sv]; simpl in Hx; try contradiction.
+      + destruct Hx as [Hk Hm]. unfold dead_kind, dead_messages. simpl. rewrite Hk, Hm. reflexivity.
+      + destruct Hx as (-> & Hn1 & Hn2). unfold dead_kind, dead_messages. simpl. rewrite display_tv.
+        rewrite (display_closed (init_state []) (ms x') v Hn1). reflexivity.
     - subst. reflexivity.
   Qed.
+
+  (* Stage A (proved first, now a special case): programs without try/catch *)
+  Corollary mech_refines_spec_tryfree fuel :
+    tf_prog = true -> mech_obs prog cm B fm true true true fuel C = spec_obs prog (B ++ C) fm fuel.
+  Proof. intros _. apply mech_refines_spec. Qed.
 End Refine.
 
 Print Assumptions mech_refines_spec_tryfree.
@@ -2763,7 +2244,7 @@ Print Assumptions mech_refines_spec.
 (* what the try-free class contains (programs in the wire format of ModLang.parse_prog; B = print/type/Vec) *)
 Open Scope string_scope.
 Definition ex_B : list name := ["print"; "type"; "Vec"; "String"].
-Definition ex_obs (w : string) : obs := mech_obs (parse_prog w) [] ex_B 64 true true 200 [].
+Definition ex_obs (w : string) : obs := mech_obs (parse_prog w) [] ex_B 64 true true true 200 [].
 Definition ex_spec (w : string) : obs := spec_obs (parse_prog w) (ex_B ++ []) 64 200.
 
 (* one module: globals, a function, a call *)
